@@ -20,15 +20,19 @@ Arguments N.to_nat : simpl never.
 (* 0. Definitions                                                                         *)
 (* ====================================================================================== *)
 
+(* the length of a header slot as a nat.  Written [N.to_nat HEADER_SIZE] rather than the unary
+   numeral to keep terms small; see [SLOT_4096]. *)
+Notation SLOT := (N.to_nat HEADER_SIZE).
+
 (* a header slot: 4096 bytes beginning with a valid frame of the header with bit b; what follows
    the frame is arbitrary (old bytes / zero padding) *)
 Definition slot_holds (cr : crypto) (s : bytes) (h : header) (b : bool) : Prop :=
-  length s = 4096%nat /\
+  length s = SLOT /\
   exists fr tail, frame cr b false (enc_header h) = Ok fr /\ s = fr ++ tail.
 
 (* a slot with no valid frame *)
 Definition slot_invalid (cr : crypto) (s : bytes) : Prop :=
-  length s = 4096%nat /\ validate_leader cr s = None.
+  length s = SLOT /\ validate_leader cr s = None.
 
 (* the entries area *)
 Definition body_holds (cr : crypto) (bit : bool) (l : list (entry * bool)) (rest body : bytes) : Prop :=
@@ -107,47 +111,46 @@ Fixpoint c_apply_all (c : bytes) (l : list sop) : option bytes :=
 (* 1. List / content helpers                                                              *)
 (* ====================================================================================== *)
 
-Lemma HS_nat : N.to_nat HEADER_SIZE = 4096%nat.
+Lemma SLOT_4096 : SLOT = 4096%nat.
 Proof. reflexivity. Qed.
 
-Lemma EO_nat : N.to_nat ENTRIES_OFFSET = (4096 + 4096)%nat.
+Lemma EO_nat : N.to_nat ENTRIES_OFFSET = (SLOT + SLOT)%nat.
 Proof. reflexivity. Qed.
 
 Lemma skipn_two_slots (s0 s1 body : bytes) :
-  length s0 = 4096%nat -> length s1 = 4096%nat ->
+  length s0 = SLOT -> length s1 = SLOT ->
   skipn (N.to_nat ENTRIES_OFFSET) (s0 ++ s1 ++ body) = body.
 Proof.
   intros H0 H1. rewrite app_assoc. apply skipn_app_exact.
-  rewrite app_length, H0, H1. reflexivity.
+  rewrite app_length, H0, H1. unfold HEADER_SIZE, ENTRIES_OFFSET. lia.
 Qed.
 
 Lemma len_two_slots (s0 s1 body : bytes) :
-  length s0 = 4096%nat -> length s1 = 4096%nat ->
+  length s0 = SLOT -> length s1 = SLOT ->
   len (s0 ++ s1 ++ body) = ENTRIES_OFFSET + len body.
 Proof.
-  intros H0 H1. rewrite !len_app. unfold len. rewrite H0, H1. unfold ENTRIES_OFFSET. lia.
+  intros H0 H1. rewrite !len_app. unfold len. rewrite H0, H1. unfold HEADER_SIZE, ENTRIES_OFFSET. lia.
 Qed.
 
 Lemma slice_slot0 (s0 s1 body : bytes) :
-  length s0 = 4096%nat -> length s1 = 4096%nat ->
+  length s0 = SLOT -> length s1 = SLOT ->
   slice (s0 ++ s1 ++ body) 0 HEADER_SIZE = Some s0.
 Proof.
   intros H0 H1. unfold slice. rewrite len_two_slots by assumption.
   destruct (N.leb_spec HEADER_SIZE (ENTRIES_OFFSET + len body)) as [_|H];
     [|unfold HEADER_SIZE, ENTRIES_OFFSET in H; lia].
   f_equal. change (N.to_nat 0) with 0%nat. cbn [skipn].
-  change (N.to_nat (HEADER_SIZE - 0)) with 4096%nat.
+  rewrite N.sub_0_r.
   now apply firstn_app_exact.
 Qed.
 
 Lemma slice_slot1 (s0 s1 body : bytes) :
-  length s0 = 4096%nat -> length s1 = 4096%nat ->
+  length s0 = SLOT -> length s1 = SLOT ->
   slice (s0 ++ s1 ++ body) HEADER_SIZE ENTRIES_OFFSET = Some s1.
 Proof.
   intros H0 H1. unfold slice. rewrite len_two_slots by assumption.
   destruct (N.leb_spec ENTRIES_OFFSET (ENTRIES_OFFSET + len body)) as [_|H]; [|lia].
-  f_equal. change (N.to_nat HEADER_SIZE) with 4096%nat.
-  change (N.to_nat (ENTRIES_OFFSET - HEADER_SIZE)) with 4096%nat.
+  f_equal. change (ENTRIES_OFFSET - HEADER_SIZE) with HEADER_SIZE.
   rewrite skipn_app_exact by assumption. now apply firstn_app_exact.
 Qed.
 
@@ -280,7 +283,7 @@ Definition slot_view (cr : crypto) (s : bytes) (st : slot_state) : Prop :=
   | SInvalid => validate_leader cr s = None
   end.
 
-Lemma slot_is_view cr s st : crc_ok cr -> slot_is cr s st -> slot_view cr s st /\ length s = 4096%nat.
+Lemma slot_is_view cr s st : crc_ok cr -> slot_is cr s st -> slot_view cr s st /\ length s = SLOT.
 Proof.
   intros Hcrc. destruct st as [h b|]; cbn [slot_is slot_view].
   - intros [Hok Hs]. split; [|apply Hs].
@@ -340,8 +343,8 @@ Section Open.
     oplog_open cr None (s0 ++ s1 ++ body) = Ok (open_result bits h l (ENTRIES_OFFSET + len body)).
   Proof.
     intros H0 H1 Hch (fb & Hfb & -> & Hrest & Hok).
-    assert (L0 : length s0 = 4096%nat) by (destruct st0; apply H0).
-    assert (L1 : length s1 = 4096%nat) by (destruct st1; apply H1).
+    assert (L0 : length s0 = SLOT) by (destruct st0; apply H0).
+    assert (L1 : length s1 = SLOT) by (destruct st1; apply H1).
     unfold oplog_open. cbv zeta.
     rewrite (open_header_stage s0 s1 (fb ++ rest) st0 st1 H0 H1).
     rewrite Hch. cbn [bind].
@@ -407,8 +410,10 @@ Section Open.
       oo_ops oo = (if ENTRIES_OFFSET + frames_size (kept l) <? len (s0 ++ s1 ++ body)
                    then [ST Oplog (ENTRIES_OFFSET + frames_size (kept l))] else []).
   Proof.
-    intros K0 K1 S0 S1 B. eexists. split; [now apply open_two_slots with (rest := rest)|].
-    rewrite len_two_slots by (apply S0 || apply S1). cbn. repeat split; reflexivity.
+    intros K0 K1 S0 S1 B. eexists. split; [apply (open_two_slots s0 s1 body h0 h1 b0 b1 l rest); assumption|].
+    rewrite len_two_slots by (apply S0 || apply S1).
+    unfold open_result. cbn [oo_header oo_oplog ol_bits oo_entries ol_entries_len ol_entries_bytes oo_ops].
+    repeat split; reflexivity.
   Qed.
 
   (* O2 *)
@@ -441,3 +446,1427 @@ Section Open.
   Qed.
 
 End Open.
+
+(* ====================================================================================== *)
+(* 4. Storage operations on contents                                                      *)
+(* ====================================================================================== *)
+
+Lemma c_grow_id c n : (N.to_nat n <= length c)%nat -> c_grow c n = c.
+Proof.
+  intros H. unfold c_grow. replace (N.to_nat n - length c)%nat with 0%nat by lia.
+  unfold zeros. cbn [repeat]. apply app_nil_r.
+Qed.
+
+Lemma zeros_length n : length (zeros n) = n.
+Proof. apply repeat_length. Qed.
+
+(* [d] written over the beginning of [s] *)
+Definition overlay (d s : bytes) : bytes := d ++ skipn (length d) s.
+
+Lemma overlay_length d s : (length d <= length s)%nat -> length (overlay d s) = length s.
+Proof. intros H. unfold overlay. rewrite app_length, skipn_length. lia. Qed.
+
+Lemma c_write_end c d : c_write c (len c) d = c ++ d.
+Proof.
+  unfold c_write, c_grow.
+  replace (N.to_nat (len c + len d) - length c)%nat with (length d) by (unfold len; lia).
+  replace (N.to_nat (len c)) with (length c) by (unfold len; lia).
+  rewrite firstn_app_exact by reflexivity. f_equal.
+  rewrite skipn_all2; [apply app_nil_r|]. rewrite app_length, zeros_length. lia.
+Qed.
+
+Lemma c_write_slot0 s0 s1 body d :
+  length s0 = SLOT -> length s1 = SLOT -> (length d <= SLOT)%nat ->
+  c_write (s0 ++ s1 ++ body) 0 d = overlay d s0 ++ s1 ++ body.
+Proof.
+  intros H0 H1 Hd. unfold c_write.
+  rewrite c_grow_id by (rewrite !app_length; unfold len; lia).
+  change (N.to_nat 0) with 0%nat. cbn [firstn app Nat.add].
+  rewrite skipn_app. replace (length d - length s0)%nat with 0%nat by lia. cbn [skipn].
+  unfold overlay. now rewrite <- app_assoc.
+Qed.
+
+Lemma c_write_slot1 s0 s1 body d :
+  length s0 = SLOT -> length s1 = SLOT -> (length d <= SLOT)%nat ->
+  c_write (s0 ++ s1 ++ body) HEADER_SIZE d = s0 ++ overlay d s1 ++ body.
+Proof.
+  intros H0 H1 Hd. unfold c_write.
+  rewrite c_grow_id by (rewrite !app_length; unfold len; lia).
+  rewrite firstn_app_exact by assumption. f_equal.
+  rewrite skipn_app. rewrite (skipn_all2 s0) by lia.
+  replace (SLOT + length d - length s0)%nat with (length d) by lia. cbn [app].
+  rewrite skipn_app. replace (length d - length s1)%nat with 0%nat by lia. cbn [skipn].
+  unfold overlay. now rewrite <- app_assoc.
+Qed.
+
+Lemma c_truncate_entries s0 s1 body n :
+  length s0 = SLOT -> length s1 = SLOT -> n <= len body ->
+  c_truncate (s0 ++ s1 ++ body) (ENTRIES_OFFSET + n) = s0 ++ s1 ++ firstn (N.to_nat n) body.
+Proof.
+  intros H0 H1 Hn. unfold c_truncate.
+  replace (N.to_nat (ENTRIES_OFFSET + n) - length (s0 ++ s1 ++ body))%nat with 0%nat
+    by (rewrite !app_length; unfold len, ENTRIES_OFFSET, HEADER_SIZE in *; lia).
+  unfold zeros. cbn [repeat]. rewrite app_nil_r.
+  replace (N.to_nat (ENTRIES_OFFSET + n)) with (SLOT + (SLOT + N.to_nat n))%nat
+    by (unfold ENTRIES_OFFSET, HEADER_SIZE; lia).
+  rewrite firstn_app, H0, (firstn_all2 s0) by lia. f_equal.
+  replace (SLOT + (SLOT + N.to_nat n) - SLOT)%nat with (SLOT + N.to_nat n)%nat by lia.
+  rewrite firstn_app, H1, (firstn_all2 s1) by lia. f_equal.
+  f_equal. lia.
+Qed.
+
+Lemma c_truncate_all_entries s0 s1 body :
+  length s0 = SLOT -> length s1 = SLOT ->
+  c_truncate (s0 ++ s1 ++ body) ENTRIES_OFFSET = s0 ++ s1 ++ [].
+Proof.
+  intros H0 H1. replace ENTRIES_OFFSET with (ENTRIES_OFFSET + 0) at 1 by lia.
+  rewrite c_truncate_entries by (assumption || lia). reflexivity.
+Qed.
+
+Lemma c_truncate_same c : c_truncate c (len c) = c.
+Proof.
+  unfold c_truncate. replace (N.to_nat (len c)) with (length c) by (unfold len; lia).
+  rewrite firstn_all, Nat.sub_diag. unfold zeros. cbn [repeat]. apply app_nil_r.
+Qed.
+
+Lemma c_write_empty d : c_write [] 0 d = d.
+Proof.
+  unfold c_write, c_grow. change (N.to_nat 0) with 0%nat. cbn [firstn app Nat.add length].
+  rewrite skipn_all2; [apply app_nil_r|]. rewrite zeros_length. unfold len. lia.
+Qed.
+
+Lemma c_truncate_grow c n : (length c <= N.to_nat n)%nat ->
+  c_truncate c n = c ++ zeros (N.to_nat n - length c).
+Proof. intros H. unfold c_truncate. now rewrite firstn_all2. Qed.
+
+(* ====================================================================================== *)
+(* 5. The stable state and appends (C-A)                                                  *)
+(* ====================================================================================== *)
+
+(* the crate never writes partial entries *)
+Definition tag (l : list entry) : list (entry * bool) := map (fun e => (e, false)) l.
+
+Lemma tag_app l1 l2 : tag (l1 ++ l2) = tag l1 ++ tag l2.
+Proof. apply map_app. Qed.
+Lemma tag_fst l : map fst (tag l) = l.
+Proof. unfold tag. rewrite map_map. cbn [fst]. apply map_id. Qed.
+Lemma tag_length l : length (tag l) = length l.
+Proof. apply map_length. Qed.
+Lemma tag_nopartial l : forallb (fun x => negb (snd x)) (tag l) = true.
+Proof. induction l; [reflexivity | exact IHl]. Qed.
+Lemma tag_ok l : forallb (fun x => entry_ok (fst x)) (tag l) = forallb entry_ok l.
+Proof. induction l as [|e l IH]; [reflexivity|]. cbn [tag map forallb fst]. now rewrite <- IH. Qed.
+Lemma kept_tag l : kept (tag l) = tag l.
+Proof. apply kept_nopartial, tag_nopartial. Qed.
+
+Definition entries_size (l : list entry) : N := frames_size (tag l).
+
+(* the result of opening a file in a stable state: nothing to repair *)
+Definition stable_result (bits : bool * bool) (h : header) (l : list entry) : open_outcome :=
+  mkOpenOutcome (mkOplog bits (N.of_nat (length l)) (entries_size l)) h [] l.
+
+Section Crash.
+  Variable cr : crypto.
+  Hypothesis Hcrc : crc_ok cr.
+
+  (* the state between two calls: slot states [st0], [st1] selecting header [hc] with bits
+     [bits]; the entries area holds exactly the frames of [l], all carrying the current bit *)
+  Definition good (s0 s1 body : bytes) (st0 st1 : slot_state) (bits : bool * bool) (hc : header)
+             (l : list entry) : Prop :=
+    slot_is cr s0 st0 /\ slot_is cr s1 st1 /\ choose st0 st1 = Some (bits, hc) /\
+    frames cr (current_bit bits) (tag l) = Ok body /\ forallb entry_ok l = true.
+
+  Lemma open_result_tag bits h l flen :
+    open_result bits h (tag l) flen =
+    mkOpenOutcome (mkOplog bits (N.of_nat (length l)) (entries_size l)) h
+      (if ENTRIES_OFFSET + entries_size l <? flen then [ST Oplog (ENTRIES_OFFSET + entries_size l)] else [])
+      l.
+  Proof. unfold open_result. rewrite kept_tag, tag_fst, tag_length. reflexivity. Qed.
+
+  (* the slots select (bits, hc); the entries area is frames of l followed by [rest] that does not
+     continue the log: open returns l and cuts [rest] *)
+  Lemma open_with_garbage s0 s1 fb rest st0 st1 bits hc l :
+    slot_is cr s0 st0 -> slot_is cr s1 st1 -> choose st0 st1 = Some (bits, hc) ->
+    frames cr (current_bit bits) (tag l) = Ok fb -> forallb entry_ok l = true ->
+    no_frame_here cr (current_bit bits) rest ->
+    oplog_open cr None (s0 ++ s1 ++ fb ++ rest) =
+    Ok (mkOpenOutcome (mkOplog bits (N.of_nat (length l)) (len fb)) hc
+          (if 0 <? len rest then [ST Oplog (ENTRIES_OFFSET + len fb)] else []) l).
+  Proof.
+    intros H0 H1 Hch Hf Hok Hr.
+    rewrite (open_slots cr Hcrc s0 s1 (fb ++ rest) st0 st1 bits hc (tag l) rest H0 H1 Hch).
+    2:{ exists fb. repeat split; auto. now rewrite tag_ok. }
+    rewrite open_result_tag. unfold entries_size. rewrite <- (frames_len _ _ _ _ Hf).
+    rewrite len_app.
+    replace (ENTRIES_OFFSET + len fb <? ENTRIES_OFFSET + (len fb + len rest)) with (0 <? len rest) by lia.
+    reflexivity.
+  Qed.
+
+  (* C-A / C-F / C-R "before": reopening a stable state *)
+  Theorem good_open s0 s1 body st0 st1 bits hc l :
+    good s0 s1 body st0 st1 bits hc l ->
+    oplog_open cr None (s0 ++ s1 ++ body) = Ok (stable_result bits hc l).
+  Proof.
+    intros (H0 & H1 & Hch & Hf & Hok).
+    rewrite <- (app_nil_r body).
+    rewrite (open_with_garbage s0 s1 body [] st0 st1 bits hc l H0 H1 Hch Hf Hok (no_frame_nil _ _)).
+    unfold stable_result, entries_size. now rewrite (frames_len _ _ _ _ Hf).
+  Qed.
+
+  Lemma good_len_body s0 s1 body st0 st1 bits hc l :
+    good s0 s1 body st0 st1 bits hc l -> len body = entries_size l.
+  Proof. intros (_ & _ & _ & Hf & _). exact (frames_len _ _ _ _ Hf). Qed.
+
+  Lemma good_slot_lengths s0 s1 body st0 st1 bits hc l :
+    good s0 s1 body st0 st1 bits hc l -> length s0 = SLOT /\ length s1 = SLOT.
+  Proof.
+    intros (H0 & H1 & _). split; [destruct st0; apply H0 | destruct st1; apply H1].
+  Qed.
+
+  (* what oplog_append emits *)
+  Lemma oplog_append_inv o e o' ops :
+    oplog_append cr o e = Ok (o', ops) ->
+    exists payload fr, enc_entry e = Ok payload /\
+      frame cr (current_bit (ol_bits o)) false payload = Ok fr /\
+      o' = mkOplog (ol_bits o) (ol_entries_len o + 1) (ol_entries_bytes o + len fr) /\
+      ops = [SW Oplog (ENTRIES_OFFSET + ol_entries_bytes o) fr].
+  Proof.
+    unfold oplog_append. intros H. apply bind_ok in H as (payload & Hp & H).
+    apply bind_ok in H as (fr & Hf & H). injection H as <- <-.
+    exists payload, fr. repeat split; auto.
+    destruct (enc_entry e) as [x|[]| |]; cbn [lift_enc] in Hp; try discriminate; exact Hp.
+  Qed.
+
+  (* C-A: an append on a stable state.  [o] is the in-memory oplog as reconstructed by open. *)
+  Theorem append_crash s0 s1 body st0 st1 bits hc l e o' ops :
+    good s0 s1 body st0 st1 bits hc l -> entry_ok e = true ->
+    oplog_append cr (oo_oplog (stable_result bits hc l)) e = Ok (o', ops) ->
+    let c := s0 ++ s1 ++ body in
+    exists fr, ops = [SW Oplog (len c) fr] /\
+      (* before the write *)
+      oplog_open cr None c = Ok (stable_result bits hc l) /\
+      (* complete write: the new state is stable, holds l ++ [e], and the in-memory oplog
+         returned by append is the one a reopen reconstructs *)
+      c_write c (len c) fr = s0 ++ s1 ++ (body ++ fr) /\
+      good s0 s1 (body ++ fr) st0 st1 bits hc (l ++ [e]) /\
+      oplog_open cr None (c_write c (len c) fr) = Ok (stable_result bits hc (l ++ [e])) /\
+      o' = oo_oplog (stable_result bits hc (l ++ [e])) /\
+      (* torn write: only t bytes of the frame reached the store *)
+      forall t, (t < length fr)%nat ->
+        oplog_open cr None (c_write c (len c) (firstn t fr)) =
+          Ok (mkOpenOutcome (oo_oplog (stable_result bits hc l)) hc
+                (if 0 <? N.of_nat t then [ST Oplog (len c)] else []) l) /\
+        (* and the truncate issued by that open restores the old content *)
+        c_truncate (c_write c (len c) (firstn t fr)) (len c) = c.
+  Proof.
+    intros G He Ha c.
+    pose proof G as (H0 & H1 & Hch & Hf & Hok).
+    destruct (good_slot_lengths _ _ _ _ _ _ _ _ G) as [L0 L1].
+    pose proof (good_len_body _ _ _ _ _ _ _ _ G) as Lb.
+    apply oplog_append_inv in Ha as (payload & fr & Hp & Hfr & -> & ->).
+    cbn [stable_result oo_oplog ol_bits ol_entries_bytes ol_entries_len] in *.
+    assert (Lc : len c = ENTRIES_OFFSET + entries_size l).
+    { subst c. rewrite len_two_slots by assumption. now rewrite Lb. }
+    exists fr. split; [now rewrite Lc|].
+    split; [now apply good_open with (st0 := st0) (st1 := st1)|].
+    assert (W : c_write c (len c) fr = s0 ++ s1 ++ body ++ fr).
+    { rewrite c_write_end. subst c. now rewrite <- !app_assoc. }
+    assert (Hf' : frames cr (current_bit bits) (tag (l ++ [e])) = Ok (body ++ fr)).
+    { rewrite tag_app. apply frames_app; [exact Hf|]. eapply frames_single; eauto. }
+    assert (G' : good s0 s1 (body ++ fr) st0 st1 bits hc (l ++ [e])).
+    { repeat split; auto. rewrite forallb_app, Hok. cbn [forallb]. now rewrite He. }
+    split; [exact W|]. split; [exact G'|].
+    split; [rewrite W; now apply good_open with (st0 := st0) (st1 := st1)|].
+    split.
+    { unfold entries_size. rewrite app_length. cbn [length].
+      rewrite <- (frames_len _ _ _ _ Hf'), len_app, <- (frames_len _ _ _ _ Hf).
+      f_equal. lia. }
+    intros t Ht. split.
+    - rewrite c_write_end. subst c. rewrite <- !app_assoc.
+      rewrite (open_with_garbage s0 s1 body (firstn t fr) st0 st1 bits hc l H0 H1 Hch Hf Hok).
+      2:{ left. eapply validate_torn_entry_strong; eauto. }
+      rewrite len_two_slots by assumption. rewrite Lb.
+      replace (len (firstn t fr)) with (N.of_nat t) by (unfold len; rewrite firstn_length; lia).
+      reflexivity.
+    - rewrite c_write_end. unfold c_truncate.
+      replace (N.to_nat (len c)) with (length c) by (unfold len; lia).
+      rewrite firstn_app_exact by reflexivity.
+      replace (length c - length (c ++ firstn t fr))%nat with 0%nat by (rewrite app_length; lia).
+      unfold zeros. cbn [repeat]. apply app_nil_r.
+  Qed.
+
+
+  (* ==================================================================================== *)
+  (* 6. Header writes: flush (C-F) and make_read_only (C-R)                               *)
+  (* ==================================================================================== *)
+
+  Definition w_slot (bits : bool * bool) : N := fst (fst (next_slot bits)).
+  Definition w_bit (bits : bool * bool) : bool := snd (fst (next_slot bits)).
+  Definition w_bits (bits : bool * bool) : bool * bool := snd (next_slot bits).
+
+  (* slot contents after writing [d] at offset [slot] (0 or 4096) *)
+  Definition put0 (slot : N) (d s0 : bytes) : bytes := if slot =? 0 then overlay d s0 else s0.
+  Definition put1 (slot : N) (d s1 : bytes) : bytes := if slot =? 0 then s1 else overlay d s1.
+
+  (* the header fits its slot.  With clear_traces the crate checks it; without, the buffer is
+     8 + 2 * (payload length) bytes long and nothing checks that this stays below 4096 *)
+  Definition hdr_fits (ct : bool) (h : header) : Prop :=
+    ct = true \/ 8 + 2 * len (enc_header h) <= HEADER_SIZE.
+
+  Lemma w_slot_cases bits : w_slot bits = 0 \/ w_slot bits = HEADER_SIZE.
+  Proof. destruct bits as [[] []]; cbv; auto. Qed.
+
+  Lemma w_bits_current bits : current_bit (w_bits bits) = negb (current_bit bits).
+  Proof. destruct bits as [[] []]; reflexivity. Qed.
+
+  Lemma c_write_slot s0 s1 body bits d :
+    length s0 = SLOT -> length s1 = SLOT -> (length d <= SLOT)%nat ->
+    c_write (s0 ++ s1 ++ body) (w_slot bits) d =
+    put0 (w_slot bits) d s0 ++ put1 (w_slot bits) d s1 ++ body.
+  Proof.
+    intros H0 H1 Hd. unfold put0, put1. destruct (w_slot_cases bits) as [-> | ->].
+    - change (0 =? 0) with true. cbv iota. now apply c_write_slot0.
+    - change (HEADER_SIZE =? 0) with false. cbv iota. now apply c_write_slot1.
+  Qed.
+
+  Lemma insert_header_inv h eb bits ct bits' ops :
+    insert_header cr h eb bits ct = Ok (bits', ops) ->
+    exists fr pad, frame cr (w_bit bits) false (enc_header h) = Ok fr /\ bits' = w_bits bits /\
+      ops = [SW Oplog (w_slot bits) (fr ++ pad); ST Oplog (ENTRIES_OFFSET + eb)] /\
+      (ct = true -> length (fr ++ pad) = SLOT) /\
+      (hdr_fits ct h -> (length (fr ++ pad) <= SLOT)%nat).
+  Proof.
+    unfold insert_header, w_bit, w_bits, w_slot.
+    destruct (next_slot bits) as [[slot bit] b'] eqn:E. cbn [fst snd].
+    intros H. apply bind_ok in H as (fr & Hf & H).
+    destruct (N.ltb_spec (if ct then HEADER_SIZE else 8 + 2 * len (enc_header h)) (len fr)) as [Hlt|Hge];
+      [discriminate|].
+    injection H as <- <-. unfold pad_to.
+    exists fr. eexists. split; [exact Hf|]. split; [reflexivity|]. split; [reflexivity|].
+    pose proof (frame_length _ _ _ _ _ Hf) as Lf.
+    split.
+    - intros ->. rewrite app_length, zeros_length. unfold len, HEADER_SIZE in *. lia.
+    - intros [-> | Hfit]; rewrite app_length, zeros_length; unfold len, HEADER_SIZE in *; [lia|].
+      destruct ct; lia.
+  Qed.
+
+  Lemma overlay_slot_holds fr pad s h b :
+    frame cr b false (enc_header h) = Ok fr -> length s = SLOT ->
+    (length (fr ++ pad) <= SLOT)%nat -> slot_holds cr (overlay (fr ++ pad) s) h b.
+  Proof.
+    intros Hf Hs Hl. split.
+    - rewrite overlay_length; [exact Hs | lia].
+    - exists fr. eexists. split; [exact Hf|]. unfold overlay. rewrite <- app_assoc. reflexivity.
+  Qed.
+
+  Lemma choose_after_write st0 st1 bits hc hn :
+    choose st0 st1 = Some (bits, hc) ->
+    choose (if w_slot bits =? 0 then SValid hn (w_bit bits) else st0)
+           (if w_slot bits =? 0 then st1 else SValid hn (w_bit bits)) = Some (w_bits bits, hn).
+  Proof.
+    destruct st0 as [h0 b0|], st1 as [h1 b1|]; cbn [choose]; intros E; try discriminate;
+      injection E as <- <-.
+    - destruct b0, b1; reflexivity.
+    - destruct b0; reflexivity.
+    - destruct b1; reflexivity.
+  Qed.
+
+  (* the written slot is never the one holding the current header *)
+  Lemma choose_after_torn st0 st1 bits hc :
+    choose st0 st1 = Some (bits, hc) ->
+    choose (if w_slot bits =? 0 then SInvalid else st0)
+           (if w_slot bits =? 0 then st1 else SInvalid) = Some (bits, hc).
+  Proof.
+    destruct st0 as [h0 b0|], st1 as [h1 b1|]; cbn [choose]; intros E; try discriminate;
+      injection E as <- <-.
+    - destruct b0, b1; reflexivity.
+    - destruct b0; reflexivity.
+    - destruct b1; reflexivity.
+  Qed.
+
+  Lemma header_write_step s0 s1 st0 st1 bits hc hn eb ct bits' ops :
+    slot_is cr s0 st0 -> slot_is cr s1 st1 -> choose st0 st1 = Some (bits, hc) ->
+    header_ok hn = true -> hdr_fits ct hn ->
+    insert_header cr hn eb bits ct = Ok (bits', ops) ->
+    exists fr pad,
+      frame cr (w_bit bits) false (enc_header hn) = Ok fr /\ (length (fr ++ pad) <= SLOT)%nat /\
+      (ct = true -> length (fr ++ pad) = SLOT) /\
+      bits' = w_bits bits /\
+      ops = [SW Oplog (w_slot bits) (fr ++ pad); ST Oplog (ENTRIES_OFFSET + eb)] /\
+      (forall body, c_write (s0 ++ s1 ++ body) (w_slot bits) (fr ++ pad) =
+                    put0 (w_slot bits) (fr ++ pad) s0 ++ put1 (w_slot bits) (fr ++ pad) s1 ++ body) /\
+      exists st0' st1', slot_is cr (put0 (w_slot bits) (fr ++ pad) s0) st0' /\
+                        slot_is cr (put1 (w_slot bits) (fr ++ pad) s1) st1' /\
+                        choose st0' st1' = Some (bits', hn) /\
+                        current_bit bits' = negb (current_bit bits).
+  Proof.
+    intros H0 H1 Hch Hok Hfit Hins.
+    assert (L0 : length s0 = SLOT) by (destruct st0; apply H0).
+    assert (L1 : length s1 = SLOT) by (destruct st1; apply H1).
+    apply insert_header_inv in Hins as (fr & pad & Hf & -> & -> & Hct & Hl).
+    specialize (Hl Hfit). exists fr, pad.
+    split; [exact Hf|]. split; [exact Hl|]. split; [exact Hct|]. split; [reflexivity|].
+    split; [reflexivity|].
+    split; [intros body; now apply c_write_slot|].
+    exists (if w_slot bits =? 0 then SValid hn (w_bit bits) else st0),
+           (if w_slot bits =? 0 then st1 else SValid hn (w_bit bits)).
+    split; [|split; [|split]].
+    - unfold put0. destruct (w_slot bits =? 0); [|exact H0].
+      split; [exact Hok|]. now apply overlay_slot_holds.
+    - unfold put1. destruct (w_slot bits =? 0); [exact H1|].
+      split; [exact Hok|]. now apply overlay_slot_holds.
+    - eapply choose_after_write; eauto.
+    - apply w_bits_current.
+  Qed.
+
+  (* the state right after a header write, before its truncate: the new header is current, the
+     old entries carry the old entry bit and are cut by open *)
+  Lemma open_after_header_write s0 s1 body st0 st1 bits hn cb l :
+    slot_is cr s0 st0 -> slot_is cr s1 st1 -> choose st0 st1 = Some (bits, hn) ->
+    current_bit bits = negb cb -> frames cr cb (tag l) = Ok body ->
+    oplog_open cr None (s0 ++ s1 ++ body) =
+    Ok (mkOpenOutcome (mkOplog bits 0 0) hn (if 0 <? len body then [ST Oplog ENTRIES_OFFSET] else []) []).
+  Proof.
+    intros H0 H1 Hch Hcb Hf.
+    change body with ([] ++ body).
+    rewrite (open_with_garbage s0 s1 [] body st0 st1 bits hn [] H0 H1 Hch); auto.
+    rewrite Hcb. eapply old_body_no_frame; eauto.
+  Qed.
+
+  (* C-F: flush of a new header [hn] on a stable state *)
+  Theorem flush_crash s0 s1 body st0 st1 bits hc l hn o o' ops :
+    good s0 s1 body st0 st1 bits hc l -> header_ok hn = true -> hdr_fits false hn ->
+    ol_bits o = bits -> oplog_flush cr o hn false = Ok (o', ops) ->
+    let c := s0 ++ s1 ++ body in
+    exists w s0' s1' st0' st1',
+      ops = [w; ST Oplog (ENTRIES_OFFSET + 0)] /\
+      (* before *)
+      oplog_open cr None c = Ok (stable_result bits hc l) /\
+      (* after the slot write, before the truncate: new header, no entries; open cuts the
+         stale entries itself *)
+      c_apply c w = Some (s0' ++ s1' ++ body) /\
+      oplog_open cr None (s0' ++ s1' ++ body) =
+        Ok (mkOpenOutcome (mkOplog (ol_bits o') 0 0) hn
+              (if 0 <? len body then [ST Oplog ENTRIES_OFFSET] else []) []) /\
+      (* after the truncate: stable again *)
+      c_apply (s0' ++ s1' ++ body) (ST Oplog (ENTRIES_OFFSET + 0)) = Some (s0' ++ s1' ++ []) /\
+      good s0' s1' [] st0' st1' (ol_bits o') hn [] /\
+      oplog_open cr None (s0' ++ s1' ++ []) = Ok (stable_result (ol_bits o') hn []) /\
+      o' = oo_oplog (stable_result (ol_bits o') hn []).
+  Proof.
+    intros G Hok Hfit Hb Hfl c.
+    pose proof G as (H0 & H1 & Hch & Hf & Hoks).
+    unfold oplog_flush in Hfl. apply bind_ok in Hfl as ([bits1 ops1] & Hins & Hfl).
+    injection Hfl as <- <-. rewrite Hb in Hins.
+    destruct (header_write_step s0 s1 st0 st1 bits hc hn 0 false bits1 ops1 H0 H1 Hch Hok Hfit Hins)
+      as (fr & pad & Hfr & Hl & _ & -> & -> & Hw & st0' & st1' & S0 & S1 & Hch' & Hcb).
+    exists (SW Oplog (w_slot bits) (fr ++ pad)), (put0 (w_slot bits) (fr ++ pad) s0),
+           (put1 (w_slot bits) (fr ++ pad) s1), st0', st1'.
+    cbn [ol_bits].
+    assert (L0 : length (put0 (w_slot bits) (fr ++ pad) s0) = SLOT) by (destruct st0'; apply S0).
+    assert (L1 : length (put1 (w_slot bits) (fr ++ pad) s1) = SLOT) by (destruct st1'; apply S1).
+    assert (G' : good (put0 (w_slot bits) (fr ++ pad) s0) (put1 (w_slot bits) (fr ++ pad) s1) []
+                      st0' st1' (w_bits bits) hn []).
+    { repeat split; auto. }
+    split; [reflexivity|].
+    split; [now apply good_open with (st0 := st0) (st1 := st1)|].
+    split; [cbn [c_apply]; subst c; now rewrite Hw|].
+    split; [eapply open_after_header_write; eauto|].
+    split; [cbn [c_apply]; rewrite N.add_0_r; now rewrite c_truncate_all_entries|].
+    split; [exact G'|].
+    split; [now apply good_open with (st0 := st0') (st1 := st1')|].
+    reflexivity.
+  Qed.
+
+
+  (* C-R: make_read_only = flush with clear_traces: both slots are rewritten with [hn] (the header
+     without the secret key), each write followed by its truncate.  Journal:
+     [write slot A; truncate 8192; write slot B; truncate 8192]. *)
+  Theorem read_only_crash s0 s1 body st0 st1 bits hc l hn o o' ops :
+    good s0 s1 body st0 st1 bits hc l -> header_ok hn = true ->
+    ol_bits o = bits -> oplog_flush cr o hn true = Ok (o', ops) ->
+    let c := s0 ++ s1 ++ body in
+    let T := ST Oplog (ENTRIES_OFFSET + 0) in
+    exists w1 w2 a0 a1 sa0 sa1 bits1 b0 b1 sb0 sb1,
+      ops = [w1; T; w2; T] /\
+      (* cut 0: before *)
+      oplog_open cr None c = Ok (stable_result bits hc l) /\
+      (* cut 1: first slot written: new header, no entries (open cuts the stale ones) *)
+      c_apply c w1 = Some (a0 ++ a1 ++ body) /\
+      oplog_open cr None (a0 ++ a1 ++ body) =
+        Ok (mkOpenOutcome (mkOplog bits1 0 0) hn (if 0 <? len body then [ST Oplog ENTRIES_OFFSET] else []) []) /\
+      (* cut 2: first truncate done: stable, new header, the entries are gone from the file *)
+      c_apply (a0 ++ a1 ++ body) T = Some (a0 ++ a1 ++ []) /\
+      good a0 a1 [] sa0 sa1 bits1 hn [] /\
+      oplog_open cr None (a0 ++ a1 ++ []) = Ok (stable_result bits1 hn []) /\
+      (* cut 3: second slot written: stable, new header in both slots *)
+      c_apply (a0 ++ a1 ++ []) w2 = Some (b0 ++ b1 ++ []) /\
+      good b0 b1 [] sb0 sb1 (ol_bits o') hn [] /\
+      oplog_open cr None (b0 ++ b1 ++ []) = Ok (stable_result (ol_bits o') hn []) /\
+      (exists b b', sb0 = SValid hn b /\ sb1 = SValid hn b') /\
+      (* cut 4: the last truncate changes nothing *)
+      c_apply (b0 ++ b1 ++ []) T = Some (b0 ++ b1 ++ []) /\
+      o' = oo_oplog (stable_result (ol_bits o') hn []) /\
+      (* had the first truncate been left out (the bug), the second slot write would flip the
+         entry bit back and resurrect the old entries under the new header *)
+      (exists x0 x1, c_apply (a0 ++ a1 ++ body) w2 = Some (x0 ++ x1 ++ body) /\
+         oplog_open cr None (x0 ++ x1 ++ body) = Ok (stable_result (ol_bits o') hn l)).
+  Proof.
+    intros G Hok Hb Hfl c T.
+    pose proof G as (H0 & H1 & Hch & Hf & Hoks).
+    unfold oplog_flush in Hfl. apply bind_ok in Hfl as ([bits1 ops1] & Hins1 & Hfl).
+    apply bind_ok in Hfl as ([bits2 ops2] & Hins2 & Hfl).
+    injection Hfl as <- <-. rewrite Hb in Hins1. cbn [ol_bits].
+    destruct (header_write_step s0 s1 st0 st1 bits hc hn 0 true bits1 ops1 H0 H1 Hch Hok (or_introl eq_refl) Hins1)
+      as (fr1 & pad1 & Hfr1 & Hl1 & Hfull1 & -> & -> & Hw1 & sa0 & sa1 & A0 & A1 & HchA & HcbA).
+    set (a0 := put0 (w_slot bits) (fr1 ++ pad1) s0) in *.
+    set (a1 := put1 (w_slot bits) (fr1 ++ pad1) s1) in *.
+    destruct (header_write_step a0 a1 sa0 sa1 (w_bits bits) hn hn 0 true bits2 ops2 A0 A1 HchA Hok (or_introl eq_refl) Hins2)
+      as (fr2 & pad2 & Hfr2 & Hl2 & Hfull2 & -> & -> & Hw2 & sb0 & sb1 & B0 & B1 & HchB & HcbB).
+    set (b0 := put0 (w_slot (w_bits bits)) (fr2 ++ pad2) a0) in *.
+    set (b1 := put1 (w_slot (w_bits bits)) (fr2 ++ pad2) a1) in *.
+    exists (SW Oplog (w_slot bits) (fr1 ++ pad1)), (SW Oplog (w_slot (w_bits bits)) (fr2 ++ pad2)).
+    exists a0, a1, sa0, sa1, (w_bits bits), b0, b1.
+    (* the second write goes to the other slot: both slots now hold hn *)
+    assert (Hboth : exists sb0' sb1', slot_is cr b0 sb0' /\ slot_is cr b1 sb1' /\
+                      choose sb0' sb1' = Some (w_bits (w_bits bits), hn) /\
+                      exists b b', sb0' = SValid hn b /\ sb1' = SValid hn b').
+    { assert (LA0 : length a0 = SLOT) by (destruct sa0; apply A0).
+      assert (LA1 : length a1 = SLOT) by (destruct sa1; apply A1).
+      assert (L0 : length s0 = SLOT) by (destruct st0; apply H0).
+      assert (L1 : length s1 = SLOT) by (destruct st1; apply H1).
+      subst b0 b1 a0 a1. unfold put0, put1 in *.
+      destruct (w_slot_cases bits) as [E|E]; rewrite E in *.
+      - assert (E2 : w_slot (w_bits bits) = HEADER_SIZE) by (destruct bits as [[] []]; cbv in E |- *; congruence).
+        rewrite E2 in *. change (0 =? 0) with true in *. change (HEADER_SIZE =? 0) with false in *. cbv iota in *.
+        exists (SValid hn (w_bit bits)), (SValid hn (w_bit (w_bits bits))).
+        split; [split; [exact Hok | now apply overlay_slot_holds]|].
+        split; [split; [exact Hok | now apply overlay_slot_holds]|].
+        split; [|eauto]. destruct bits as [[] []]; cbv in E; try discriminate E; reflexivity.
+      - assert (E2 : w_slot (w_bits bits) = 0) by (destruct bits as [[] []]; cbv in E |- *; congruence).
+        rewrite E2 in *. change (0 =? 0) with true in *. change (HEADER_SIZE =? 0) with false in *. cbv iota in *.
+        exists (SValid hn (w_bit (w_bits bits))), (SValid hn (w_bit bits)).
+        split; [split; [exact Hok | now apply overlay_slot_holds]|].
+        split; [split; [exact Hok | now apply overlay_slot_holds]|].
+        split; [|eauto]. destruct bits as [[] []]; cbv in E; try discriminate E; reflexivity. }
+    destruct Hboth as (sb0' & sb1' & B0' & B1' & HchB' & Hvalid).
+    exists sb0', sb1'.
+    assert (LA0 : length a0 = SLOT) by (destruct sa0; apply A0).
+    assert (LA1 : length a1 = SLOT) by (destruct sa1; apply A1).
+    assert (LB0 : length b0 = SLOT) by (destruct sb0; apply B0).
+    assert (LB1 : length b1 = SLOT) by (destruct sb1; apply B1).
+    assert (GA : good a0 a1 [] sa0 sa1 (w_bits bits) hn []) by (repeat split; auto).
+    assert (GB : good b0 b1 [] sb0' sb1' (w_bits (w_bits bits)) hn []) by (repeat split; auto).
+    split; [reflexivity|].
+    split; [now apply good_open with (st0 := st0) (st1 := st1)|].
+    split; [cbn [c_apply]; subst c; now rewrite Hw1|].
+    split; [eapply open_after_header_write; eauto|].
+    split; [subst T; cbn [c_apply]; rewrite N.add_0_r; now rewrite c_truncate_all_entries|].
+    split; [exact GA|].
+    split; [now apply good_open with (st0 := sa0) (st1 := sa1)|].
+    split; [cbn [c_apply]; now rewrite Hw2|].
+    split; [exact GB|].
+    split; [now apply good_open with (st0 := sb0') (st1 := sb1')|].
+    split; [exact Hvalid|].
+    split; [subst T; cbn [c_apply]; rewrite N.add_0_r; now rewrite c_truncate_all_entries|].
+    split; [reflexivity|].
+    exists b0, b1. split; [cbn [c_apply]; now rewrite Hw2|].
+    apply good_open with (st0 := sb0') (st1 := sb1'). repeat split; auto.
+    replace (current_bit (w_bits (w_bits bits))) with (current_bit bits); [exact Hf|].
+    rewrite !w_bits_current. now rewrite negb_involutive.
+  Qed.
+
+  (* the lemma named in the task: in the make_read_only journal the content the second slot
+     write is applied to has no entries area at all (length exactly 8192), whatever entries the
+     log held before; so the entry bit flipping back cannot resurrect anything *)
+  Corollary second_slot_write_sees_no_entries s0 s1 body st0 st1 bits hc l hn o o' ops c2 :
+    good s0 s1 body st0 st1 bits hc l -> header_ok hn = true ->
+    ol_bits o = bits -> oplog_flush cr o hn true = Ok (o', ops) ->
+    c_apply_all (s0 ++ s1 ++ body) (firstn 2 ops) = Some c2 ->
+    len c2 = ENTRIES_OFFSET /\
+    exists w2 c3, nth_error ops 2 = Some w2 /\ c_apply c2 w2 = Some c3 /\
+      oplog_open cr None c3 = Ok (stable_result (ol_bits o') hn []).
+  Proof.
+    intros G Hok Hb Hfl Hc2.
+    destruct (read_only_crash _ _ _ _ _ _ _ _ hn o o' ops G Hok Hb Hfl)
+      as (w1 & w2 & a0 & a1 & sa0 & sa1 & bits1 & b0 & b1 & sb0 & sb1 & -> & _ & C1 & _ & C2 & GA & _ & C3 & GB & O3 & _).
+    cbn [firstn c_apply_all] in Hc2. rewrite C1, C2 in Hc2. injection Hc2 as <-.
+    destruct (good_slot_lengths _ _ _ _ _ _ _ _ GA) as [LA0 LA1].
+    split; [now rewrite len_two_slots|].
+    exists w2, (b0 ++ b1 ++ []). cbn [nth_error]. auto.
+  Qed.
+
+
+  (* ==================================================================================== *)
+  (* 7. Torn header writes (C07)                                                          *)
+  (* ==================================================================================== *)
+
+  Lemma validate_leader_inv buf ld : validate_leader cr buf = Some ld ->
+    exists c lf data, buf = c ++ lf ++ data /\ length c = 4%nat /\ length lf = 4%nat /\
+      le_val lf / 4 <> 0 /\ le_val lf / 4 <= len data /\
+      cr_crc cr (lf ++ firstn (N.to_nat (le_val lf / 4)) data) = le_val c /\
+      ld = mkLeader (N.odd (le_val lf)) (N.odd (le_val lf / 2)) (le_val lf / 4) data.
+  Proof.
+    unfold validate_leader. destruct (take 4 buf) as [[c r1]|] eqn:E1; [|discriminate].
+    destruct (take 4 r1) as [[lf data]|] eqn:E2; [|discriminate].
+    apply take_length in E1 as [-> Lc]. apply take_length in E2 as [-> Ll]. cbv zeta.
+    destruct (N.eqb_spec (le_val lf / 4) 0) as [Z|NZ]; cbn [orb]; [discriminate|].
+    destruct (N.ltb_spec (len data) (le_val lf / 4)) as [Lt|Ge]; [discriminate|].
+    destruct (N.eqb_spec (cr_crc cr (lf ++ firstn (N.to_nat (le_val lf / 4)) data)) (le_val c)) as [Eq|Ne];
+      [|discriminate].
+    intros [= <-]. exists c, lf, data. repeat split; auto.
+  Qed.
+
+  Lemma app_eq_len {A} (a a' b b' : list A) :
+    a ++ b = a' ++ b' -> length a = length a' -> a = a' /\ b = b'.
+  Proof.
+    revert a'. induction a as [|x a IH]; intros [|y a'] H L; cbn [length] in L; try discriminate.
+    - auto.
+    - cbn [app] in H. injection H as -> H. injection L as L. destruct (IH _ H L) as [-> ->]. auto.
+  Qed.
+
+  Lemma le_bytes_le_val c : bytes_ok c = true -> le_bytes (length c) (le_val c) = c.
+  Proof.
+    induction c as [|b c IH]; [reflexivity|]. cbn [bytes_ok forallb]. intros H.
+    apply andb_prop in H as [Hb Hc]. unfold byte_ok in Hb.
+    cbn [length le_bytes le_val]. f_equal; [lia|].
+    replace ((b + 256 * le_val c) / 256) with (le_val c) by lia. now apply IH.
+  Qed.
+
+  Lemma bytes_ok_firstn n b : bytes_ok b = true -> bytes_ok (firstn n b) = true.
+  Proof.
+    intros H. rewrite <- (firstn_skipn n b), bytes_ok_app in H. now apply andb_prop in H.
+  Qed.
+  Lemma bytes_ok_skipn n b : bytes_ok b = true -> bytes_ok (skipn n b) = true.
+  Proof.
+    intros H. rewrite <- (firstn_skipn n b), bytes_ok_app in H. now apply andb_prop in H.
+  Qed.
+
+  Definition collision (t : nat) : Prop :=
+    exists x y : bytes, x <> y /\ cr_crc cr x = cr_crc cr y /\ ((8 <= t)%nat -> length x = length y).
+
+  (* the content of a slot [s] after the first [t] bytes of the buffer [fr ++ pad] reached it *)
+  Lemma torn_slot_cases bit payload fr pad s t :
+    frame cr bit false payload = Ok fr -> length s = SLOT ->
+    (length (fr ++ pad) <= SLOT)%nat -> (t <= length (fr ++ pad))%nat ->
+    let m := overlay (firstn t (fr ++ pad)) s in
+    length m = SLOT /\
+    ( validate_leader cr m = None
+      \/ (exists tail, m = fr ++ tail)
+      \/ ((t <= 4)%nat /\ m = (firstn t fr ++ skipn t (firstn 4 s)) ++ skipn 4 s)
+      \/ collision t ).
+  Proof.
+    intros Hf Ls Lb Ht m.
+    assert (Lm : length m = SLOT).
+    { subst m. rewrite overlay_length; [exact Ls|]. rewrite firstn_length. lia. }
+    split; [exact Lm|].
+    assert (Hm : m = firstn t (fr ++ pad) ++ skipn t s).
+    { subst m. unfold overlay. rewrite firstn_length. f_equal. f_equal. lia. }
+    pose proof (frame_length _ _ _ _ _ Hf) as Lfr. unfold len in Lfr.
+    destruct (Nat.le_gt_cases (length fr) t) as [Hge|Hlt].
+    { right; left. exists (firstn (t - length fr) pad ++ skipn t s).
+      rewrite Hm, firstn_app, (firstn_all2 fr) by lia. now rewrite <- app_assoc. }
+    destruct (Nat.le_gt_cases t 4) as [H4|H4].
+    { right; right; left. split; [exact H4|].
+      rewrite Hm, firstn_app. replace (t - length fr)%nat with 0%nat by lia.
+      cbn [firstn]. rewrite app_nil_r, <- app_assoc. f_equal.
+      rewrite <- (firstn_skipn 4 s) at 1. rewrite skipn_app, firstn_length.
+      replace (t - Nat.min 4 (length s))%nat with 0%nat by (unfold HEADER_SIZE in Ls; lia).
+      reflexivity. }
+    destruct (validate_leader cr m) as [ld|] eqn:V; [|now left].
+    right.
+    apply validate_leader_inv in V as (c & lf & data & Em & Lc & Ll & Hnz & Hle & Hcrc' & _).
+    apply frame_inv in Hf as [Hlen Efr].
+    destruct (len_field_facts (len payload) bit false Hlen) as (Hlf & Hdiv & _).
+    set (lfn := le_bytes 4 (len_field (len payload) bit false)) in *.
+    set (cn := le_bytes 4 (cr_crc cr (lfn ++ payload))) in *.
+    assert (Lcn : length cn = 4%nat) by apply length_le_bytes.
+    assert (Llfn : length lfn = 4%nat) by apply length_le_bytes.
+    assert (Hm2 : m = cn ++ firstn (t - 4) (lfn ++ payload ++ pad) ++ skipn t s).
+    { rewrite Hm, Efr, <- !app_assoc, firstn_app, (firstn_all2 cn), Lcn by lia.
+      now rewrite <- app_assoc. }
+    rewrite Hm2 in Em. symmetry in Em. apply app_eq_len in Em as [-> Em]; [|lia].
+    assert (Hv : le_val cn = cr_crc cr (lfn ++ payload)) by (apply le_val_le_bytes, Hcrc).
+    destruct (list_eq_dec N.eq_dec (lf ++ firstn (N.to_nat (le_val lf / 4)) data) (lfn ++ payload))
+      as [E|NE].
+    - left. apply app_eq_len in E as [-> E2]; [|lia].
+      exists (skipn (N.to_nat (le_val lfn / 4)) data).
+      rewrite Hm2, <- Em, Efr, <- E2, <- !app_assoc, firstn_skipn. reflexivity.
+    - right; right. exists (lf ++ firstn (N.to_nat (le_val lf / 4)) data), (lfn ++ payload).
+      split; [exact NE|]. split; [congruence|].
+      intros H8.
+      assert (Elf : lf = lfn).
+      { rewrite firstn_app, (firstn_all2 lfn), Llfn, <- app_assoc in Em by lia.
+        apply app_eq_len in Em as [-> _]; [reflexivity | lia]. }
+      subst lf. rewrite !app_length. f_equal.
+      assert (Hvl : le_val lfn = len_field (len payload) bit false) by (apply le_val_le_bytes, Hlf).
+      rewrite Hvl, Hdiv in *. rewrite firstn_length. unfold len in *. lia.
+  Qed.
+
+  (* if only (part of) the CRC field of a valid slot was overwritten, the slot is either no
+     frame any more or still the same frame *)
+  Lemma crc_field_determined b p payload fro tail c4 ld :
+    frame cr b p payload = Ok fro -> payload <> [] ->
+    length c4 = 4%nat -> bytes_ok c4 = true ->
+    validate_leader cr (c4 ++ skipn 4 (fro ++ tail)) = Some ld -> c4 = firstn 4 (fro ++ tail).
+  Proof.
+    intros Hf Hne L4 Hok V.
+    apply frame_inv in Hf as [Hlen ->].
+    destruct (len_field_facts (len payload) b p Hlen) as (Hlf & Hdiv & _).
+    set (lfo := le_bytes 4 (len_field (len payload) b p)) in *.
+    set (co := le_bytes 4 (cr_crc cr (lfo ++ payload))) in *.
+    assert (Lco : length co = 4%nat) by apply length_le_bytes.
+    assert (Llfo : length lfo = 4%nat) by apply length_le_bytes.
+    rewrite <- !app_assoc in *. rewrite skipn_app_exact in V by assumption.
+    rewrite firstn_app_exact by assumption.
+    apply validate_leader_inv in V as (c & lf & data & Em & Lc & Ll & _ & Hle & Hc & _).
+    apply app_eq_len in Em as [<- Em]; [|lia]. apply app_eq_len in Em as [<- <-]; [|lia].
+    assert (Hvl : le_val lfo = len_field (len payload) b p) by (apply le_val_le_bytes, Hlf).
+    rewrite Hvl, Hdiv in Hc. unfold len in Hc at 1. rewrite Nat2N.id, firstn_app_exact in Hc by reflexivity.
+    rewrite <- (le_bytes_le_val c4 Hok), L4, <- Hc. reflexivity.
+  Qed.
+
+  (* a slot that no CRC field can make valid: e.g. the never written, zero filled slot 1 of a
+     fresh log *)
+  Definition slot_dead (s : bytes) : Prop :=
+    length s = SLOT /\ forall c4, length c4 = 4%nat -> validate_leader cr (c4 ++ skipn 4 s) = None.
+
+  Lemma slot_dead_invalid s : slot_dead s -> slot_invalid cr s.
+  Proof.
+    intros [L D]. split; [exact L|].
+    rewrite <- (firstn_skipn 4 s). apply D. rewrite firstn_length. unfold HEADER_SIZE in L. lia.
+  Qed.
+
+  Lemma zero_length_field_dead s r :
+    length s = SLOT -> skipn 4 s = [0; 0; 0; 0] ++ r -> slot_dead s.
+  Proof.
+    intros L E. split; [exact L|]. intros c4 L4. rewrite E. unfold validate_leader.
+    rewrite (take_app_n 4) by assumption. rewrite (take_app_n 4) by reflexivity. reflexivity.
+  Qed.
+
+  Lemma zeros_dead : slot_dead (zeros SLOT).
+  Proof.
+    apply (zero_length_field_dead _ (zeros (SLOT - 8))); [apply zeros_length | reflexivity].
+  Qed.
+
+  (* the state of the written slot after a torn header write *)
+  Lemma torn_slot_state bit hn fr pad s st t :
+    frame cr bit false (enc_header hn) = Ok fr -> header_ok hn = true -> slot_is cr s st ->
+    (length (fr ++ pad) <= SLOT)%nat -> (t <= length (fr ++ pad))%nat ->
+    ((t <= 4)%nat -> st = SInvalid -> slot_dead s) ->
+    let m := overlay (firstn t (fr ++ pad)) s in
+    slot_is cr m SInvalid \/ slot_is cr m (SValid hn bit) \/ slot_is cr m st \/ collision t.
+  Proof.
+    intros Hf Hok Hs Lb Ht Hdead m.
+    assert (Ls : length s = SLOT) by (destruct st; apply Hs).
+    destruct (torn_slot_cases bit (enc_header hn) fr pad s t Hf Ls Lb Ht) as [Lm Hcases].
+    fold m in Lm, Hcases.
+    destruct (validate_leader cr m) as [ld|] eqn:V; [|left; split; auto].
+    destruct Hcases as [C|[(tail & E)|[[H4 E]|C]]].
+    - congruence.
+    - right; left. split; [exact Hok|]. split; [exact Lm|]. exists fr, tail. auto.
+    - right; right; left. destruct st as [ho bo|].
+      + destruct Hs as [Hoko (_ & fro & tailo & Hfo & ->)].
+        assert (E4 : firstn t fr ++ skipn t (firstn 4 (fro ++ tailo)) = firstn 4 (fro ++ tailo)).
+        { rewrite E in V. eapply crc_field_determined; eauto.
+          - apply enc_header_nonempty.
+          - rewrite app_length, firstn_length, skipn_length, firstn_length.
+            pose proof (frame_length _ _ _ _ _ Hf) as Lfr. unfold len in Lfr.
+            unfold HEADER_SIZE in Ls. lia.
+          - rewrite bytes_ok_app. apply andb_true_intro. split.
+            + apply frame_inv in Hf as [_ ->]. rewrite firstn_app, length_le_bytes.
+              replace (t - 4)%nat with 0%nat by lia. cbn [firstn]. rewrite app_nil_r.
+              apply bytes_ok_firstn, bytes_ok_le_bytes.
+            + apply bytes_ok_skipn. apply frame_inv in Hfo as [_ ->].
+              rewrite <- !app_assoc, firstn_app_exact by apply length_le_bytes.
+              apply bytes_ok_le_bytes. }
+        rewrite E4, firstn_skipn in E. rewrite E.
+        split; [exact Hoko|]. split; [exact Ls|]. exists fro, tailo. auto.
+      + exfalso. destruct (Hdead H4 eq_refl) as [_ D]. rewrite E, D in V; [discriminate|].
+        rewrite app_length, firstn_length, skipn_length, firstn_length.
+        pose proof (frame_length _ _ _ _ _ Hf) as Lfr. unfold len in Lfr.
+        unfold HEADER_SIZE in Ls. lia.
+    - right; right; right. exact C.
+  Qed.
+
+
+  (* C07 for header slots.  State: stable (s0, s1, body) selecting (bits, hc) with entries l.
+     The header write emitted by [insert_header] is torn after t bytes.  Reopening gives exactly
+     the state before, or exactly the state after the complete write, unless the run exhibits
+     a CRC collision.  Side condition: when the tear falls inside the 4-byte CRC field of a slot
+     that was ALREADY invalid, that slot must be dead (see [slot_dead]); for an arbitrary invalid
+     slot the statement is false, see [torn_crc_field_counterexample] below. *)
+  Theorem header_write_torn s0 s1 body st0 st1 bits hc l hn eb ct bits' slot buf tr t :
+    good s0 s1 body st0 st1 bits hc l -> header_ok hn = true -> hdr_fits ct hn ->
+    insert_header cr hn eb bits ct = Ok (bits', [SW Oplog slot buf; tr]) ->
+    (t <= length buf)%nat ->
+    ((t <= 4)%nat -> (if slot =? 0 then st0 else st1) = SInvalid ->
+     slot_dead (if slot =? 0 then s0 else s1)) ->
+    forall c', c_apply (s0 ++ s1 ++ body) (tear (SW Oplog slot buf) t) = Some c' ->
+    (* before *)
+    oplog_open cr None c' = Ok (stable_result bits hc l)
+    (* after (the complete slot write, truncate pending) *)
+    \/ oplog_open cr None c' =
+         Ok (mkOpenOutcome (mkOplog bits' 0 0) hn (if 0 <? len body then [ST Oplog ENTRIES_OFFSET] else []) [])
+    \/ collision t.
+  Proof.
+    intros G Hok Hfit Hins Ht Hdead c' Hc'.
+    pose proof G as (H0 & H1 & Hch & Hf & Hoks).
+    destruct (good_slot_lengths _ _ _ _ _ _ _ _ G) as [L0 L1].
+    apply insert_header_inv in Hins as (fr & pad & Hfr & -> & Hops & _ & Hl).
+    injection Hops as -> -> _. specialize (Hl Hfit).
+    cbn [tear c_apply] in Hc'. injection Hc' as <-.
+    rewrite c_write_slot by (try assumption; rewrite firstn_length; lia).
+    set (d := firstn t (fr ++ pad)).
+    set (sw := if w_slot bits =? 0 then s0 else s1) in *.
+    set (stw := if w_slot bits =? 0 then st0 else st1) in *.
+    assert (Hsw : slot_is cr sw stw) by (subst sw stw; destruct (w_slot bits =? 0); assumption).
+    (* the three possible states X of the written slot *)
+    assert (Hput : forall X, slot_is cr (overlay d sw) X ->
+              slot_is cr (put0 (w_slot bits) d s0) (if w_slot bits =? 0 then X else st0) /\
+              slot_is cr (put1 (w_slot bits) d s1) (if w_slot bits =? 0 then st1 else X)).
+    { intros X HX. unfold put0, put1. subst sw. destruct (w_slot bits =? 0); auto. }
+    destruct (torn_slot_state (w_bit bits) hn fr pad sw stw t Hfr Hok Hsw Hl Ht Hdead)
+      as [HX|[HX|[HX|C]]]; try fold d in HX.
+    - left. destruct (Hput _ HX) as [A0 A1].
+      eapply good_open. repeat split; [exact A0 | exact A1 | | exact Hf | exact Hoks].
+      now apply choose_after_torn.
+    - right; left. destruct (Hput _ HX) as [A0 A1].
+      eapply open_after_header_write; [exact A0 | exact A1 | | | exact Hf].
+      + eapply choose_after_write; eauto.
+      + apply w_bits_current.
+    - left. destruct (Hput _ HX) as [A0 A1].
+      eapply good_open. repeat split; [exact A0 | exact A1 | | exact Hf | exact Hoks].
+      subst stw. destruct (w_slot bits =? 0); exact Hch.
+    - right; right. exact C.
+  Qed.
+
+  (* the two clean sub-cases, without any side condition and without the collision disjunct *)
+
+  (* (i) the whole frame arrived, only (part of) the padding is missing: after *)
+  Theorem header_write_torn_in_padding s0 s1 body st0 st1 bits hc l hn eb ct bits' slot buf tr t fr :
+    good s0 s1 body st0 st1 bits hc l -> header_ok hn = true -> hdr_fits ct hn ->
+    insert_header cr hn eb bits ct = Ok (bits', [SW Oplog slot buf; tr]) ->
+    frame cr (w_bit bits) false (enc_header hn) = Ok fr ->
+    (length fr <= t)%nat -> (t <= length buf)%nat ->
+    forall c', c_apply (s0 ++ s1 ++ body) (tear (SW Oplog slot buf) t) = Some c' ->
+    oplog_open cr None c' =
+      Ok (mkOpenOutcome (mkOplog bits' 0 0) hn (if 0 <? len body then [ST Oplog ENTRIES_OFFSET] else []) []).
+  Proof.
+    intros G Hok Hfit Hins Hfr0 Hge Ht c' Hc'.
+    pose proof G as (H0 & H1 & Hch & Hf & Hoks).
+    destruct (good_slot_lengths _ _ _ _ _ _ _ _ G) as [L0 L1].
+    apply insert_header_inv in Hins as (fr' & pad & Hfr & -> & Hops & _ & Hl).
+    rewrite Hfr0 in Hfr. injection Hfr as <-.
+    injection Hops as -> -> _. specialize (Hl Hfit).
+    cbn [tear c_apply] in Hc'. injection Hc' as <-.
+    rewrite c_write_slot by (try assumption; rewrite firstn_length; lia).
+    assert (Ed : firstn t (fr ++ pad) = fr ++ firstn (t - length fr) pad).
+    { rewrite firstn_app, (firstn_all2 fr) by lia. reflexivity. }
+    rewrite Ed.
+    assert (Ld : (length (fr ++ firstn (t - length fr) pad) <= SLOT)%nat).
+    { rewrite <- Ed, firstn_length. lia. }
+    eapply open_after_header_write; [ | | eapply choose_after_write; eauto | apply w_bits_current | exact Hf].
+    - unfold put0. destruct (w_slot bits =? 0); [|exact H0].
+      split; [exact Hok|]. now apply overlay_slot_holds.
+    - unfold put1. destruct (w_slot bits =? 0); [exact H1|].
+      split; [exact Hok|]. now apply overlay_slot_holds.
+  Qed.
+
+  (* (ii) the mixed slot fails validation: before *)
+  Theorem header_write_torn_invalid s0 s1 body st0 st1 bits hc l hn eb ct bits' slot buf tr t :
+    good s0 s1 body st0 st1 bits hc l -> hdr_fits ct hn ->
+    insert_header cr hn eb bits ct = Ok (bits', [SW Oplog slot buf; tr]) ->
+    (t <= length buf)%nat ->
+    validate_leader cr (overlay (firstn t buf) (if slot =? 0 then s0 else s1)) = None ->
+    forall c', c_apply (s0 ++ s1 ++ body) (tear (SW Oplog slot buf) t) = Some c' ->
+    oplog_open cr None c' = Ok (stable_result bits hc l).
+  Proof.
+    intros G Hfit Hins Ht Hv c' Hc'.
+    pose proof G as (H0 & H1 & Hch & Hf & Hoks).
+    destruct (good_slot_lengths _ _ _ _ _ _ _ _ G) as [L0 L1].
+    apply insert_header_inv in Hins as (fr & pad & Hfr & -> & Hops & _ & Hl).
+    injection Hops as -> -> _. specialize (Hl Hfit).
+    cbn [tear c_apply] in Hc'. injection Hc' as <-.
+    rewrite c_write_slot by (try assumption; rewrite firstn_length; lia).
+    eapply good_open. repeat split; [ | | apply choose_after_torn; exact Hch | exact Hf | exact Hoks].
+    - unfold put0. destruct (w_slot bits =? 0); [|exact H0].
+      split; [|exact Hv]. rewrite overlay_length; [exact L0|]. rewrite firstn_length. lia.
+    - unfold put1. destruct (w_slot bits =? 0); [exact H1|].
+      split; [|exact Hv]. rewrite overlay_length; [exact L1|]. rewrite firstn_length. lia.
+  Qed.
+
+
+  (* C-F torn, stated on oplog_flush *)
+  Corollary flush_torn s0 s1 body st0 st1 bits hc l hn o o' slot buf tr t :
+    good s0 s1 body st0 st1 bits hc l -> header_ok hn = true -> hdr_fits false hn ->
+    ol_bits o = bits -> oplog_flush cr o hn false = Ok (o', [SW Oplog slot buf; tr]) ->
+    (t <= length buf)%nat ->
+    ((t <= 4)%nat -> (if slot =? 0 then st0 else st1) = SInvalid ->
+     slot_dead (if slot =? 0 then s0 else s1)) ->
+    forall c', c_apply (s0 ++ s1 ++ body) (tear (SW Oplog slot buf) t) = Some c' ->
+    oplog_open cr None c' = Ok (stable_result bits hc l)
+    \/ oplog_open cr None c' =
+         Ok (mkOpenOutcome o' hn (if 0 <? len body then [ST Oplog ENTRIES_OFFSET] else []) [])
+    \/ collision t.
+  Proof.
+    intros G Hok Hfit Hb Hfl Ht Hdead c' Hc'.
+    unfold oplog_flush in Hfl. apply bind_ok in Hfl as ([bits1 ops1] & Hins & Hfl).
+    injection Hfl as <- ->. rewrite Hb in Hins.
+    eapply header_write_torn; eauto.
+  Qed.
+
+  (* after a header write the slot written next (the other one) holds a valid header *)
+  Lemma next_written_slot_valid st0 st1 bits hc hn :
+    choose st0 st1 = Some (bits, hc) ->
+    (if w_slot (w_bits bits) =? 0
+     then (if w_slot bits =? 0 then SValid hn (w_bit bits) else st0)
+     else (if w_slot bits =? 0 then st1 else SValid hn (w_bit bits))) <> SInvalid.
+  Proof.
+    destruct st0 as [h0 b0|], st1 as [h1 b1|]; cbn [choose]; intros E; try discriminate;
+      injection E as <- <-.
+    - destruct b0, b1; discriminate.
+    - destruct b0; discriminate.
+    - destruct b1; discriminate.
+  Qed.
+
+  (* C-R torn: tears of the two slot writes of make_read_only *)
+  Theorem read_only_torn s0 s1 body st0 st1 bits hc l hn o o' sl1 buf1 tr1 sl2 buf2 tr2 :
+    good s0 s1 body st0 st1 bits hc l -> header_ok hn = true ->
+    ol_bits o = bits ->
+    oplog_flush cr o hn true = Ok (o', [SW Oplog sl1 buf1; tr1; SW Oplog sl2 buf2; tr2]) ->
+    (* first slot write torn: before, or new header without entries *)
+    (forall t c', (t <= length buf1)%nat ->
+       ((t <= 4)%nat -> (if sl1 =? 0 then st0 else st1) = SInvalid ->
+        slot_dead (if sl1 =? 0 then s0 else s1)) ->
+       c_apply (s0 ++ s1 ++ body) (tear (SW Oplog sl1 buf1) t) = Some c' ->
+       oplog_open cr None c' = Ok (stable_result bits hc l)
+       \/ (exists bits1, oplog_open cr None c' =
+             Ok (mkOpenOutcome (mkOplog bits1 0 0) hn (if 0 <? len body then [ST Oplog ENTRIES_OFFSET] else []) []))
+       \/ collision t) /\
+    (* second slot write torn: the new header without entries in any case *)
+    (forall c2 t c', c_apply_all (s0 ++ s1 ++ body) [SW Oplog sl1 buf1; tr1] = Some c2 ->
+       (t <= length buf2)%nat ->
+       c_apply c2 (tear (SW Oplog sl2 buf2) t) = Some c' ->
+       (exists bits2, oplog_open cr None c' = Ok (stable_result bits2 hn [])) \/ collision t).
+  Proof.
+    intros G Hok Hb Hfl.
+    pose proof G as (H0 & H1 & Hch & Hf & Hoks).
+    destruct (good_slot_lengths _ _ _ _ _ _ _ _ G) as [L0 L1].
+    unfold oplog_flush in Hfl. apply bind_ok in Hfl as ([bits1 ops1] & Hins1 & Hfl).
+    apply bind_ok in Hfl as ([bits2 ops2] & Hins2 & Hfl).
+    injection Hfl as <- Hops. rewrite Hb in Hins1.
+    pose proof Hins1 as Hi1. pose proof Hins2 as Hi2.
+    apply insert_header_inv in Hi1 as (fr1 & pad1 & Hfr1 & -> & -> & _ & Hl1).
+    apply insert_header_inv in Hi2 as (fr2 & pad2 & Hfr2 & -> & -> & _ & Hl2).
+    specialize (Hl1 (or_introl eq_refl)). specialize (Hl2 (or_introl eq_refl)).
+    cbn [app] in Hops. injection Hops as <- <- <- <- <-.
+    split.
+    - intros t c' Ht Hdead Hc'.
+      destruct (header_write_torn s0 s1 body st0 st1 bits hc l hn 0 true _ _ _ _ t G Hok
+                  (or_introl eq_refl) Hins1 Ht Hdead c' Hc') as [A|[A|A]]; eauto.
+    - intros c2 t c' Hc2 Ht Hc'.
+      cbn [c_apply_all c_apply] in Hc2. injection Hc2 as <-.
+      assert (LA0 : length (put0 (w_slot bits) (fr1 ++ pad1) s0) = SLOT).
+      { unfold put0. destruct (w_slot bits =? 0); [|exact L0]. rewrite overlay_length; [exact L0 | lia]. }
+      assert (LA1 : length (put1 (w_slot bits) (fr1 ++ pad1) s1) = SLOT).
+      { unfold put1. destruct (w_slot bits =? 0); [exact L1|]. rewrite overlay_length; [exact L1 | lia]. }
+      rewrite c_write_slot in Hc' by assumption.
+      rewrite N.add_0_r, c_truncate_all_entries in Hc' by assumption.
+      set (sa0 := if w_slot bits =? 0 then SValid hn (w_bit bits) else st0).
+      set (sa1 := if w_slot bits =? 0 then st1 else SValid hn (w_bit bits)).
+      assert (GA : good (put0 (w_slot bits) (fr1 ++ pad1) s0) (put1 (w_slot bits) (fr1 ++ pad1) s1) []
+                        sa0 sa1 (w_bits bits) hn []).
+      { repeat split; auto.
+        - subst sa0. unfold put0. destruct (w_slot bits =? 0); [|exact H0].
+          split; [exact Hok|]. now apply overlay_slot_holds.
+        - subst sa1. unfold put1. destruct (w_slot bits =? 0); [exact H1|].
+          split; [exact Hok|]. now apply overlay_slot_holds.
+        - eapply choose_after_write; eauto. }
+      destruct (header_write_torn _ _ _ _ _ _ _ _ hn 0 true _ _ _ _ t GA Hok
+                  (or_introl eq_refl) Hins2 Ht) with (c' := c') as [A|[A|A]].
+      + intros _ E. exfalso. revert E. subst sa0 sa1. eapply next_written_slot_valid; eauto.
+      + exact Hc'.
+      + left. eauto.
+      + left. exists (w_bits (w_bits bits)). exact A.
+      + right. exact A.
+  Qed.
+
+  (* ==================================================================================== *)
+  (* 8. Creation                                                                          *)
+  (* ==================================================================================== *)
+
+  Lemma open_short c : len c < HEADER_SIZE -> oplog_open cr None c = Err EmptyStorage.
+  Proof.
+    intros H. unfold oplog_open, slot_leader.
+    rewrite !slice_short by (unfold HEADER_SIZE, ENTRIES_OFFSET in *; lia). reflexivity.
+  Qed.
+
+  Lemma size_uint_le v : size_uint v <= 9.
+  Proof.
+    unfold size_uint. destruct (v <? 253); [lia|]. destruct (v <=? 65535); [lia|].
+    destruct (v <=? 4294967295); lia.
+  Qed.
+
+  Lemma header_new_ok kp : keypair_ok kp = true -> header_ok (header_new kp) = true.
+  Proof.
+    intros H. unfold header_ok, header_new.
+    cbn [hd_key hd_ns hd_mpk hd_keypair hd_tree hd_contig ht_fork ht_length ht_root_hash ht_signature].
+    rewrite H. pose proof H as H'. unfold keypair_ok in H'. split_ok H'. rewrite H'. reflexivity.
+  Qed.
+
+  Lemma header_new_len kp : keypair_ok kp = true -> len (enc_header (header_new kp)) <= 300.
+  Proof.
+    intros H. unfold keypair_ok in H. split_ok H. apply Nat.eqb_eq in H.
+    unfold enc_header, header_new, enc_keypair, enc_header_tree, enc_buffer.
+    cbn [hd_key hd_ns hd_mpk hd_keypair hd_tree hd_contig ht_fork ht_length ht_root_hash ht_signature
+         kp_public kp_secret].
+    assert (Lns : len DEFAULT_NAMESPACE = 32) by reflexivity.
+    assert (Lpk : len (kp_public kp) = 32) by (unfold len; rewrite H; reflexivity).
+    destruct (kp_secret kp) as [sk|].
+    - split_ok Hok. apply Nat.eqb_eq in Hok.
+      assert (Lsk : len sk = 32) by (unfold len; rewrite Hok; reflexivity).
+      rewrite !len_app, !len_enc_uint, Lns, Lpk, Lsk.
+      pose proof (size_uint_le 32). pose proof (size_uint_le (32 + 32)). pose proof (size_uint_le 0).
+      pose proof (size_uint_le (len [])).
+      change (len [1; 6]) with 2. change (len [0; 0; 1]) with 3. change (len [0]) with 1.
+      change (len []) with 0 in *. lia.
+    - rewrite !len_app, !len_enc_uint, Lns, Lpk.
+      pose proof (size_uint_le 32). pose proof (size_uint_le 0). pose proof (size_uint_le (len [])).
+      change (len [1; 6]) with 2. change (len [0; 0; 1]) with 3. change (len [0]) with 1.
+      change (len []) with 0 in *. lia.
+  Qed.
+
+  Lemma zeros_app a b : zeros (a + b) = zeros a ++ zeros b.
+  Proof. apply repeat_app. Qed.
+
+  (* creation: [oplog_fresh] writes slot 0 and zero-extends the file to 8192 bytes.  Reopening
+     the result gives the new header with no entries; a crash before the truncate (whether the
+     slot write was complete, torn, or did not happen) leaves a file shorter than one slot,
+     which opens as EmptyStorage: the state before creation. *)
+  Theorem oplog_fresh_then_open kp :
+    keypair_ok kp = true ->
+    exists buf s0,
+      oplog_fresh cr kp =
+        Ok (mkOplog (false, false) 0 0, header_new kp, [SW Oplog 0 buf; ST Oplog (ENTRIES_OFFSET + 0)]) /\
+      (* nothing written yet, or the slot write torn / complete but not yet extended *)
+      (forall t, oplog_open cr None (c_write [] 0 (firstn t buf)) = Err EmptyStorage) /\
+      oplog_open cr None (c_write [] 0 buf) = Err EmptyStorage /\
+      (* both operations done *)
+      c_apply_all [] [SW Oplog 0 buf; ST Oplog (ENTRIES_OFFSET + 0)] = Some (s0 ++ zeros SLOT ++ []) /\
+      good s0 (zeros SLOT) [] (SValid (header_new kp) false) SInvalid (false, false) (header_new kp) [] /\
+      slot_dead (zeros SLOT) /\
+      oplog_open cr None (s0 ++ zeros SLOT ++ []) = Ok (stable_result (false, false) (header_new kp) []).
+  Proof.
+    intros Hkp.
+    pose proof (header_new_ok kp Hkp) as Hok. pose proof (header_new_len kp Hkp) as Hlen.
+    unfold oplog_fresh.
+    destruct (insert_header cr (header_new kp) 0 INITIAL_HEADER_BITS false) as [[b' ops]| | |] eqn:Hins.
+    2,3,4: exfalso; revert Hins; unfold insert_header, INITIAL_HEADER_BITS, next_slot; cbn [fst snd xorb negb];
+      unfold frame;
+      (destruct (N.leb_spec 1073741824 (len (enc_header (header_new kp)))) as [Hbig|Hsmall]; [lia|]);
+      cbn [bind]; rewrite !len_app, !len_le_bytes;
+      (destruct (N.ltb_spec (8 + 2 * len (enc_header (header_new kp)))
+                           (N.of_nat 4 + (N.of_nat 4 + len (enc_header (header_new kp))))) as [A|A]; [lia|]);
+      discriminate.
+    pose proof Hins as Hi.
+    apply insert_header_inv in Hi as (fr & pad & Hfr & -> & -> & _ & Hl).
+    assert (Hfit : hdr_fits false (header_new kp)) by (right; unfold HEADER_SIZE; lia).
+    specialize (Hl Hfit). cbn [bind].
+    change (w_slot INITIAL_HEADER_BITS) with 0 in *. change (w_bits INITIAL_HEADER_BITS) with (false, false).
+    change (w_bit INITIAL_HEADER_BITS) with false in *.
+    (* the buffer is strictly shorter than a slot *)
+    assert (Lbuf : (length (fr ++ pad) < SLOT)%nat).
+    { revert Hins. unfold insert_header, INITIAL_HEADER_BITS, next_slot. cbn [fst snd xorb negb].
+      rewrite Hfr. cbn [bind].
+      destruct (8 + 2 * len (enc_header (header_new kp)) <? len fr); [discriminate|].
+      intros [= E]. apply (f_equal (@length N)) in E. unfold pad_to in E.
+      rewrite (app_length fr), zeros_length in E.
+      pose proof (frame_length _ _ _ _ _ Hfr) as Lfr. unfold len, HEADER_SIZE in *. lia. }
+    exists (fr ++ pad), ((fr ++ pad) ++ zeros (SLOT - length (fr ++ pad))).
+    split; [reflexivity|].
+    split; [intros t; rewrite c_write_empty; apply open_short; unfold len; rewrite firstn_length; lia|].
+    split; [rewrite c_write_empty; apply open_short; unfold len; lia|].
+    assert (S0 : slot_holds cr ((fr ++ pad) ++ zeros (SLOT - length (fr ++ pad))) (header_new kp) false).
+    { split; [rewrite app_length, zeros_length; lia|].
+      exists fr. eexists. split; [exact Hfr|]. rewrite <- app_assoc. reflexivity. }
+    assert (G : good ((fr ++ pad) ++ zeros (SLOT - length (fr ++ pad))) (zeros SLOT) []
+                     (SValid (header_new kp) false) SInvalid (false, false) (header_new kp) []).
+    { split; [split; [exact Hok | exact S0]|].
+      split; [apply slot_dead_invalid, zeros_dead|].
+      repeat split; reflexivity. }
+    split.
+    { cbn [c_apply_all c_apply]. rewrite c_write_empty. f_equal.
+      rewrite c_truncate_grow by (unfold ENTRIES_OFFSET, HEADER_SIZE in *; lia).
+      replace (N.to_nat (ENTRIES_OFFSET + 0) - length (fr ++ pad))%nat
+        with ((SLOT - length (fr ++ pad)) + SLOT)%nat by (unfold ENTRIES_OFFSET, HEADER_SIZE in *; lia).
+      rewrite zeros_app, app_nil_r, app_assoc. reflexivity. }
+    split; [exact G|]. split; [apply zeros_dead|].
+    now apply good_open with (st0 := SValid (header_new kp) false) (st1 := SInvalid).
+  Qed.
+
+End Crash.
+
+(* the premise [hdr_fits false h] holds for every header the crate can produce: root hashes
+   are 32 bytes and signatures 64 bytes long *)
+Lemma hdr_fits_real h :
+  header_ok h = true -> len (ht_root_hash (hd_tree h)) <= 32 -> len (ht_signature (hd_tree h)) <= 64 ->
+  hdr_fits false h.
+Proof.
+  intros H Hr Hs. right. unfold header_ok in H. split_ok H.
+  apply Nat.eqb_eq in H, Hok6, Hok5. unfold keypair_ok in Hok4. split_ok Hok4. apply Nat.eqb_eq in Hok4.
+  unfold enc_header, enc_keypair, enc_header_tree, enc_buffer.
+  assert (L1 : len (hd_key h) = 32) by (unfold len; rewrite H; reflexivity).
+  assert (L2 : len (hd_ns h) = 32) by (unfold len; rewrite Hok6; reflexivity).
+  assert (L3 : len (hd_mpk h) = 32) by (unfold len; rewrite Hok5; reflexivity).
+  assert (L4 : len (kp_public (hd_keypair h)) = 32) by (unfold len; rewrite Hok4; reflexivity).
+  assert (Hsz : forall v, size_uint v <= 9) by apply size_uint_le.
+  destruct (kp_secret (hd_keypair h)) as [sk|].
+  - split_ok Hok7. apply Nat.eqb_eq in Hok7.
+    assert (L5 : len sk = 32) by (unfold len; rewrite Hok7; reflexivity).
+    rewrite !len_app, !len_enc_uint.
+    repeat match goal with
+           | |- context [size_uint ?v] =>
+               let x := fresh "x" in let Hx := fresh "Hx" in let Ex := fresh "Ex" in
+               pose proof (Hsz v) as Hx; remember (size_uint v) as x eqn:Ex; clear Ex
+           end.
+    change (len [1; 6]) with 2. change (len [0; 0; 1]) with 3. change (len [0]) with 1.
+    unfold HEADER_SIZE. lia.
+  - rewrite !len_app, !len_enc_uint.
+    repeat match goal with
+           | |- context [size_uint ?v] =>
+               let x := fresh "x" in let Hx := fresh "Hx" in let Ex := fresh "Ex" in
+               pose proof (Hsz v) as Hx; remember (size_uint v) as x eqn:Ex; clear Ex
+           end.
+    change (len [1; 6]) with 2. change (len [0; 0; 1]) with 3. change (len [0]) with 1.
+    unfold HEADER_SIZE. lia.
+Qed.
+
+(* ====================================================================================== *)
+(* 10. Contents versus the sparse files of Storage.v                                      *)
+(* ====================================================================================== *)
+
+Lemma length_f_content f : length (f_content f) = N.to_nat (f_len f).
+Proof. unfold f_content. now rewrite map_length, nrange_length. Qed.
+
+Lemma nth_f_content f i :
+  nth i (f_content f) 0 = if N.of_nat i <? f_len f then f_byte f (N.of_nat i) else 0.
+Proof.
+  destruct (N.ltb_spec (N.of_nat i) (f_len f)) as [H|H].
+  - unfold f_content. rewrite map_nrange_nth by lia. f_equal.
+  - apply nth_overflow. rewrite length_f_content. lia.
+Qed.
+
+Lemma nth_zeros n i : nth i (zeros n) 0 = 0.
+Proof.
+  unfold zeros. revert i. induction n as [|n IH]; intros [|i]; cbn [repeat nth]; auto.
+Qed.
+
+Lemma nth_c_grow c n i : nth i (c_grow c n) 0 = nth i c 0.
+Proof.
+  unfold c_grow. destruct (Nat.lt_ge_cases i (length c)) as [H|H].
+  - now rewrite app_nth1.
+  - rewrite app_nth2 by exact H. rewrite nth_zeros. symmetry. now apply nth_overflow.
+Qed.
+
+Lemma length_c_grow c n : length (c_grow c n) = Nat.max (length c) (N.to_nat n).
+Proof. unfold c_grow. rewrite app_length, zeros_length. lia. Qed.
+
+Lemma nth_c_write c off d i :
+  nth i (c_write c off d) 0 =
+  if (N.to_nat off <=? i)%nat && (i <? N.to_nat off + length d)%nat
+  then nth (i - N.to_nat off) d 0 else nth i c 0.
+Proof.
+  unfold c_write. set (c' := c_grow c (off + len d)).
+  assert (Lc' : (N.to_nat off + length d <= length c')%nat).
+  { subst c'. rewrite length_c_grow. unfold len. lia. }
+  assert (Lf : length (firstn (N.to_nat off) c') = N.to_nat off) by (rewrite firstn_length; lia).
+  destruct (Nat.leb_spec (N.to_nat off) i) as [A|A]; cbn [andb].
+  - rewrite app_nth2 by lia. rewrite Lf.
+    destruct (Nat.ltb_spec i (N.to_nat off + length d)) as [B|B].
+    + rewrite app_nth1 by lia. reflexivity.
+    + rewrite app_nth2 by lia. rewrite nth_skipn_add.
+      replace (N.to_nat off + length d + (i - N.to_nat off - length d))%nat with i by lia.
+      subst c'. apply nth_c_grow.
+  - rewrite app_nth1 by lia. rewrite nth_firstn_lt by lia. subst c'. apply nth_c_grow.
+Qed.
+
+Lemma length_c_write c off d :
+  length (c_write c off d) = Nat.max (length c) (N.to_nat off + length d).
+Proof.
+  unfold c_write. rewrite !app_length, firstn_length, skipn_length, length_c_grow. unfold len. lia.
+Qed.
+
+Theorem f_content_write f off d : f_content (f_write f off d) = c_write (f_content f) off d.
+Proof.
+  apply (nth_ext _ _ 0 0).
+  - rewrite length_c_write, !length_f_content, f_write_len. unfold len. lia.
+  - intros i Hi. rewrite length_f_content, f_write_len in Hi.
+    rewrite nth_c_write, !nth_f_content, f_write_len, f_write_byte. unfold len in *.
+    destruct (N.ltb_spec (N.of_nat i) (N.max (f_len f) (off + N.of_nat (length d)))) as [A|A]; [|lia].
+    destruct (Nat.leb_spec (N.to_nat off) i) as [B|B];
+      destruct (Nat.ltb_spec i (N.to_nat off + length d)) as [C|C]; cbn [andb];
+      bcase; try reflexivity; try lia.
+    all: try (f_equal; lia).
+Qed.
+
+Lemma nth_c_truncate c n i :
+  nth i (c_truncate c n) 0 = if (i <? N.to_nat n)%nat then nth i c 0 else 0.
+Proof.
+  unfold c_truncate.
+  destruct (Nat.lt_ge_cases i (length (firstn (N.to_nat n) c))) as [H|H].
+  - rewrite app_nth1 by exact H. rewrite firstn_length in H.
+    rewrite nth_firstn_lt by lia. destruct (Nat.ltb_spec i (N.to_nat n)); [reflexivity | lia].
+  - rewrite app_nth2 by exact H. rewrite nth_zeros. rewrite firstn_length in H.
+    destruct (Nat.ltb_spec i (N.to_nat n)); [|reflexivity].
+    symmetry. apply nth_overflow. lia.
+Qed.
+
+Lemma length_c_truncate c n : length (c_truncate c n) = N.to_nat n.
+Proof. unfold c_truncate. rewrite app_length, firstn_length, zeros_length. lia. Qed.
+
+Theorem f_content_truncate f n : f_content (f_truncate f n) = c_truncate (f_content f) n.
+Proof.
+  apply (nth_ext _ _ 0 0).
+  - now rewrite length_c_truncate, length_f_content, f_truncate_len.
+  - intros i Hi. rewrite length_f_content, f_truncate_len in Hi.
+    rewrite nth_c_truncate, !nth_f_content, f_truncate_len, f_truncate_byte.
+    destruct (Nat.ltb_spec i (N.to_nat n)) as [A|A]; [|lia].
+    bcase; try reflexivity; lia.
+Qed.
+
+(* the content-level semantics used in this file is the one of Storage.v *)
+Theorem c_apply_sound d o d' c' :
+  sop_store o = Oplog -> apply_sop d o = Some d' ->
+  c_apply (f_content (d_oplog d)) o = Some c' -> f_content (d_oplog d') = c'.
+Proof.
+  destruct o as [s off data | s off n | s n]; cbn [sop_store apply_sop c_apply]; intros -> E C;
+    try discriminate; injection E as <-; injection C as <-; cbn [d_set d_get d_oplog].
+  - apply f_content_write.
+  - apply f_content_truncate.
+Qed.
+
+Theorem c_apply_all_sound ops : forall d d' c',
+  Forall (fun o => sop_store o = Oplog) ops -> apply_sops d ops = Some d' ->
+  c_apply_all (f_content (d_oplog d)) ops = Some c' -> f_content (d_oplog d') = c'.
+Proof.
+  induction ops as [|o ops IH]; intros d d' c' Hall E C.
+  - cbn in E, C. injection E as <-. now injection C as <-.
+  - inversion Hall as [|? ? Ho Hops]; subst. cbn [apply_sops c_apply_all] in E, C.
+    destruct (apply_sop d o) as [d1|] eqn:E1; [|discriminate].
+    destruct (c_apply (f_content (d_oplog d)) o) as [c1|] eqn:C1; [|discriminate].
+    rewrite <- (c_apply_sound d o d1 c1 Ho E1 C1) in C. eapply IH; eauto.
+Qed.
+
+(* a torn write is a write of the prefix: same semantics *)
+Lemma tear_store o t : sop_store (tear o t) = sop_store o.
+Proof. destruct o; reflexivity. Qed.
+
+(* ====================================================================================== *)
+(* 9. Non-vacuity: a toy crypto and concrete runs                                         *)
+(* ====================================================================================== *)
+
+Definition toy : crypto :=
+  mkCrypto (fun _ => []) (fun b => sumN b mod 4294967296) (fun _ _ => []) (fun _ _ _ => true).
+
+Lemma toy_crc_ok : crc_ok toy.
+Proof. intros b. cbn [cr_crc toy]. lia. Qed.
+
+Definition ex_header (c : N) : header :=
+  mkHeader (zeros 32) (zeros 32) (zeros 32) (mkKeypair (zeros 32) None)
+           (mkHeaderTree 0 c (zeros 32) (zeros 64)) c.
+Definition ex_frame (b : bool) (h : header) : bytes :=
+  match frame toy b false (enc_header h) with Ok fr => fr | _ => [] end.
+Definition ex_slot (b : bool) (h : header) : bytes := pad_to HEADER_SIZE (ex_frame b h).
+Definition ex_entry (n : N) : entry := mkEntry [] None (Some (mkBfUpdate false n 1)).
+Definition ex_body (bit : bool) (l : list entry) : bytes :=
+  match frames toy bit (tag l) with Ok b => b | _ => [] end.
+
+
+Definition h3 := ex_header 3.
+Definition h4 := ex_header 4.
+Definition h5 := ex_header 5.
+Definition e7 := ex_entry 7.
+Definition e9 := ex_entry 9.
+
+(* slot 0: header h3 with bit true; slot 1: header h4 with bit false; bits (true, false): slot 1
+   is current, the entry bit is true; two entries *)
+Definition ex_s0 : bytes := ex_slot true h3.
+Definition ex_s1 : bytes := ex_slot false h4.
+Definition ex_b : bytes := ex_body true [e7; e9].
+Definition ex_c : bytes := ex_s0 ++ ex_s1 ++ ex_b.
+
+Lemma ex_slot_is b c : (c <? 10) = true -> slot_is toy (ex_slot b (ex_header c)) (SValid (ex_header c) b).
+Proof.
+  intros Hc.
+  assert (C : c = 0 \/ c = 1 \/ c = 2 \/ c = 3 \/ c = 4 \/ c = 5 \/ c = 6 \/ c = 7 \/ c = 8 \/ c = 9) by lia.
+  split; [|split].
+  - repeat (destruct C as [-> | C]; [reflexivity|]). subst c. reflexivity.
+  - repeat (destruct C as [-> | C]; [destruct b; vm_compute; reflexivity|]). subst c. destruct b; vm_compute; reflexivity.
+  - exists (ex_frame b (ex_header c)), (zeros (N.to_nat (HEADER_SIZE - len (ex_frame b (ex_header c))))).
+    split; [|reflexivity].
+    repeat (destruct C as [-> | C]; [destruct b; vm_compute; reflexivity|]). subst c. destruct b; vm_compute; reflexivity.
+Qed.
+
+Example ex_good : good toy ex_s0 ex_s1 ex_b (SValid h3 true) (SValid h4 false) (true, false) h4 [e7; e9].
+Proof.
+  split; [apply ex_slot_is; reflexivity|]. split; [apply ex_slot_is; reflexivity|].
+  split; [reflexivity|]. split; [vm_compute; reflexivity | reflexivity].
+Qed.
+
+(* O1 instantiated ... *)
+Example ex_open_thm : oplog_open toy None ex_c = Ok (stable_result (true, false) h4 [e7; e9]).
+Proof. exact (good_open toy toy_crc_ok _ _ _ _ _ _ _ _ ex_good). Qed.
+
+(* ... and the same run computed *)
+Example ex_open_run :
+  oplog_open toy None ex_c = Ok (mkOpenOutcome (mkOplog (true, false) 2 24) h4 [] [e7; e9]).
+Proof. vm_compute. reflexivity. Qed.
+
+(* O1 with a trailing partial entry and garbage after it: both are cut *)
+Definition ex_b2 : bytes :=
+  match frames toy true [(e7, false); (e9, true)] with Ok b => b ++ [1; 2; 3] | _ => [] end.
+
+Example ex_open_partial_thm :
+  oplog_open toy None (ex_s0 ++ ex_s1 ++ ex_b2) =
+  Ok (open_result (true, false) h4 [(e7, false); (e9, true)] (ENTRIES_OFFSET + len ex_b2)).
+Proof.
+  pose proof (ex_slot_is true 3 eq_refl) as [K0 S0]. pose proof (ex_slot_is false 4 eq_refl) as [K1 S1].
+  apply (open_two_slots toy toy_crc_ok ex_s0 ex_s1 ex_b2 h3 h4 true false _ [1; 2; 3] K0 K1 S0 S1).
+  eexists. split; [vm_compute; reflexivity|]. split; [vm_compute; reflexivity|].
+  split; [|reflexivity]. left. apply validate_short. cbn. lia.
+Qed.
+
+Example ex_open_partial_run :
+  oplog_open toy None (ex_s0 ++ ex_s1 ++ ex_b2) =
+  Ok (mkOpenOutcome (mkOplog (true, false) 1 12) h4 [ST Oplog 8204] [e7]).
+Proof. vm_compute. reflexivity. Qed.
+
+(* C-F: flush of h5 *)
+Definition ex_o : oplog := mkOplog (true, false) 2 24.
+Definition ex_flush_w : sop := SW Oplog 0 (pad_to (8 + 2 * len (enc_header h5)) (ex_frame false h5)).
+Definition ex_flush_t : sop := ST Oplog (ENTRIES_OFFSET + 0).
+
+Example ex_flush_run :
+  oplog_flush toy ex_o h5 false = Ok (mkOplog (false, false) 0 0, [ex_flush_w; ex_flush_t]).
+Proof. vm_compute. reflexivity. Qed.
+
+Lemma ex_fits : hdr_fits false h5.
+Proof. right. vm_compute. discriminate. Qed.
+
+(* C-F instantiated on this state ... *)
+Example ex_flush_thm :
+  exists s0' s1',
+    c_apply ex_c ex_flush_w = Some (s0' ++ s1' ++ ex_b) /\
+    oplog_open toy None (s0' ++ s1' ++ ex_b) =
+      Ok (mkOpenOutcome (mkOplog (false, false) 0 0) h5 [ST Oplog ENTRIES_OFFSET] []) /\
+    c_apply (s0' ++ s1' ++ ex_b) ex_flush_t = Some (s0' ++ s1' ++ []) /\
+    oplog_open toy None (s0' ++ s1' ++ []) = Ok (stable_result (false, false) h5 []).
+Proof.
+  destruct (flush_crash toy toy_crc_ok _ _ _ _ _ _ _ _ h5 ex_o _ _ ex_good eq_refl ex_fits eq_refl ex_flush_run)
+    as (w & s0' & s1' & st0' & st1' & Hops & _ & C1 & O1 & C2 & _ & O2 & _).
+  injection Hops as <-. exists s0', s1'. cbn [ol_bits] in *.
+  change (0 <? len ex_b) with true in O1. cbv iota in O1. auto.
+Qed.
+
+(* ... and the same runs computed *)
+
+Definition open_after (c : bytes) (ops : list sop) : res open_outcome :=
+  match c_apply_all c ops with Some c' => oplog_open toy None c' | None => Err IOErr end.
+
+(* crash before / between / after the two operations of the flush *)
+Example ex_flush_cut0 :
+  open_after ex_c [] = Ok (mkOpenOutcome (mkOplog (true, false) 2 24) h4 [] [e7; e9]).
+Proof. vm_compute. reflexivity. Qed.
+Example ex_flush_cut1 :
+  open_after ex_c [ex_flush_w] = Ok (mkOpenOutcome (mkOplog (false, false) 0 0) h5 [ST Oplog 8192] []).
+Proof. vm_compute. reflexivity. Qed.
+Example ex_flush_cut2 :
+  open_after ex_c [ex_flush_w; ex_flush_t] = Ok (mkOpenOutcome (mkOplog (false, false) 0 0) h5 [] []).
+Proof. vm_compute. reflexivity. Qed.
+(* torn slot write: inside the frame (before), inside the padding (after) *)
+Example ex_flush_torn_100 :
+  open_after ex_c [tear ex_flush_w 100] = Ok (mkOpenOutcome (mkOplog (true, false) 2 24) h4 [] [e7; e9]).
+Proof. vm_compute. reflexivity. Qed.
+Example ex_flush_torn_3 :
+  open_after ex_c [tear ex_flush_w 3] = Ok (mkOpenOutcome (mkOplog (true, false) 2 24) h4 [] [e7; e9]).
+Proof. vm_compute. reflexivity. Qed.
+Example ex_flush_torn_300 :
+  open_after ex_c [tear ex_flush_w 300] = Ok (mkOpenOutcome (mkOplog (false, false) 0 0) h5 [ST Oplog 8192] []).
+Proof. vm_compute. reflexivity. Qed.
+
+(* Why [header_write_torn] needs its side condition.  Slot 0 is invalid but not dead: it holds
+   the frame of some header hx (bit false) whose first CRC byte is wrong.  Slot 1 holds the
+   current header h4.  A flush of h5 rewrites slot 0; the write is torn after ONE byte.  The
+   first CRC byte of the new frame happens to be the byte that was wrong (for CRC-32: one chance
+   in 256; the two checksums differ, no collision is involved), so slot 0 now validates as hx
+   with the bit that makes it current: reopening yields hx, which is neither the state before
+   (h4 with two entries) nor the state after (h5).  Such a slot content is not produced by the
+   crate from a fresh log without a previous torn write; ruling it out needs an invariant on
+   the history of invalid slots that is not part of this development. *)
+Definition hx : header :=
+  mkHeader (255 :: 1 :: zeros 30) (zeros 32) (zeros 32) (mkKeypair (zeros 32) None)
+           (mkHeaderTree 0 4 (zeros 32) (zeros 64)) 6.
+Definition ex_bad_s0 : bytes :=
+  match ex_slot false hx with x :: r => ((x + 1) mod 256) :: r | [] => [] end.
+
+Example torn_crc_field_counterexample :
+  good toy ex_bad_s0 ex_s1 ex_b SInvalid (SValid h4 false) (true, false) h4 [e7; e9] /\
+  oplog_flush toy ex_o h5 false = Ok (mkOplog (false, false) 0 0, [ex_flush_w; ex_flush_t]) /\
+  cr_crc toy (skipn 4 (ex_frame false hx)) <> cr_crc toy (skipn 4 (ex_frame false h5)) /\
+  open_after (ex_bad_s0 ++ ex_s1 ++ ex_b) [] =
+    Ok (mkOpenOutcome (mkOplog (true, false) 2 24) h4 [] [e7; e9]) /\
+  open_after (ex_bad_s0 ++ ex_s1 ++ ex_b) [ex_flush_w] =
+    Ok (mkOpenOutcome (mkOplog (false, false) 0 0) h5 [ST Oplog 8192] []) /\
+  open_after (ex_bad_s0 ++ ex_s1 ++ ex_b) [tear ex_flush_w 1] =
+    Ok (mkOpenOutcome (mkOplog (false, false) 0 0) hx [ST Oplog 8192] []).
+Proof.
+  split.
+  { split; [split; vm_compute; reflexivity|]. split; [apply ex_slot_is; reflexivity|].
+    split; [reflexivity|]. split; [vm_compute; reflexivity | reflexivity]. }
+  split; [exact ex_flush_run|].
+  split; [vm_compute; discriminate|].
+  repeat split; vm_compute; reflexivity.
+Qed.
+
+Print Assumptions open_slots.
+Print Assumptions open_slots_none.
+Print Assumptions open_two_slots.
+Print Assumptions open_two_slots_empty.
+Print Assumptions open_two_slots_fields.
+Print Assumptions open_one_slot_0.
+Print Assumptions open_one_slot_1.
+Print Assumptions open_no_slot.
+Print Assumptions good_open.
+Print Assumptions append_crash.
+Print Assumptions header_write_step.
+Print Assumptions flush_crash.
+Print Assumptions read_only_crash.
+Print Assumptions second_slot_write_sees_no_entries.
+Print Assumptions torn_slot_cases.
+Print Assumptions torn_slot_state.
+Print Assumptions header_write_torn.
+Print Assumptions header_write_torn_in_padding.
+Print Assumptions header_write_torn_invalid.
+Print Assumptions flush_torn.
+Print Assumptions read_only_torn.
+Print Assumptions zeros_dead.
+Print Assumptions oplog_fresh_then_open.
+Print Assumptions hdr_fits_real.
+Print Assumptions f_content_write.
+Print Assumptions f_content_truncate.
+Print Assumptions c_apply_sound.
+Print Assumptions c_apply_all_sound.
+Print Assumptions toy_crc_ok.
+Print Assumptions ex_good.
+Print Assumptions ex_open_thm.
+Print Assumptions ex_open_run.
+Print Assumptions ex_open_partial_thm.
+Print Assumptions ex_open_partial_run.
+Print Assumptions ex_flush_run.
+Print Assumptions ex_flush_thm.
+Print Assumptions ex_flush_cut1.
+Print Assumptions ex_flush_cut2.
+Print Assumptions ex_flush_torn_100.
+Print Assumptions ex_flush_torn_300.
+Print Assumptions torn_crc_field_counterexample.
